@@ -1,0 +1,6366 @@
+	.file	"test_absyn.c"
+	.text
+.Ltext0:
+	.file 0 "/repo/aldor/aldor/src" "test/test_absyn.c"
+	.section	.rodata
+.LC0:
+	.string	"testAbSynFormat"
+.LC1:
+	.string	"testAbSynFormatList"
+.LC2:
+	.string	"testAbParse"
+.LC3:
+	.string	"testExquo"
+.LC4:
+	.string	"testAbContains"
+	.text
+	.globl	absynTest
+	.type	absynTest, @function
+absynTest:
+.LFB0:
+	.file 1 "test/test_absyn.c"
+	.loc 1 16 1
+	.cfi_startproc
+	pushq	%rbp
+	.cfi_def_cfa_offset 16
+	.cfi_offset 6, -16
+	movq	%rsp, %rbp
+	.cfi_def_cfa_register 6
+	.loc 1 17 2
+	call	init@PLT
+	.loc 1 18 2
+	leaq	testAbSynFormat(%rip), %rax
+	movq	%rax, %rsi
+	leaq	.LC0(%rip), %rax
+	movq	%rax, %rdi
+	call	showTest@PLT
+	.loc 1 19 2
+	leaq	testAbSynFormatList(%rip), %rax
+	movq	%rax, %rsi
+	leaq	.LC1(%rip), %rax
+	movq	%rax, %rdi
+	call	showTest@PLT
+	.loc 1 20 2
+	leaq	testAbParse(%rip), %rax
+	movq	%rax, %rsi
+	leaq	.LC2(%rip), %rax
+	movq	%rax, %rdi
+	call	showTest@PLT
+	.loc 1 21 2
+	leaq	testExquo(%rip), %rax
+	movq	%rax, %rsi
+	leaq	.LC3(%rip), %rax
+	movq	%rax, %rdi
+	call	showTest@PLT
+	.loc 1 22 2
+	leaq	testAbContains(%rip), %rax
+	movq	%rax, %rsi
+	leaq	.LC4(%rip), %rax
+	movq	%rax, %rdi
+	call	showTest@PLT
+	.loc 1 23 2
+	call	fini@PLT
+	.loc 1 24 1
+	nop
+	popq	%rbp
+	.cfi_def_cfa 7, 8
+	ret
+	.cfi_endproc
+.LFE0:
+	.size	absynTest, .-absynTest
+	.section	.rodata
+.LC5:
+	.string	"x"
+.LC6:
+	.string	"id"
+.LC7:
+	.string	"T"
+.LC8:
+	.string	"(Declare x T)"
+	.text
+	.type	testAbSynFormat, @function
+testAbSynFormat:
+.LFB1:
+	.loc 1 28 1
+	.cfi_startproc
+	pushq	%rbp
+	.cfi_def_cfa_offset 16
+	.cfi_offset 6, -16
+	movq	%rsp, %rbp
+	.cfi_def_cfa_register 6
+	pushq	%rbx
+	subq	$8, %rsp
+	.cfi_offset 3, -24
+	.loc 1 29 2
+	leaq	.LC5(%rip), %rax
+	movq	%rax, %rdi
+	call	id@PLT
+	movq	%rax, %rdx
+	leaq	.LC5(%rip), %rax
+	movq	%rax, %rsi
+	leaq	.LC6(%rip), %rax
+	movq	%rax, %rdi
+	call	testAbSynFormatOne
+	.loc 1 30 2
+	leaq	.LC7(%rip), %rax
+	movq	%rax, %rdi
+	call	id@PLT
+	movq	%rax, %rbx
+	leaq	.LC5(%rip), %rax
+	movq	%rax, %rdi
+	call	id@PLT
+	movq	%rbx, %rsi
+	movq	%rax, %rdi
+	call	declare@PLT
+	movq	%rax, %rdx
+	leaq	.LC8(%rip), %rax
+	movq	%rax, %rsi
+	leaq	.LC6(%rip), %rax
+	movq	%rax, %rdi
+	call	testAbSynFormatOne
+	.loc 1 31 1
+	nop
+	movq	-8(%rbp), %rbx
+	leave
+	.cfi_def_cfa 7, 8
+	ret
+	.cfi_endproc
+.LFE1:
+	.size	testAbSynFormat, .-testAbSynFormat
+	.section	.rodata
+.LC9:
+	.string	"5 quo 7"
+.LC10:
+	.string	"isApply"
+.LC11:
+	.string	"5 exquo 7"
+	.text
+	.type	testExquo, @function
+testExquo:
+.LFB2:
+	.loc 1 35 1
+	.cfi_startproc
+	pushq	%rbp
+	.cfi_def_cfa_offset 16
+	.cfi_offset 6, -16
+	movq	%rsp, %rbp
+	.cfi_def_cfa_register 6
+	subq	$16, %rsp
+	.loc 1 37 8
+	leaq	.LC9(%rip), %rax
+	movq	%rax, %rdi
+	call	abqParse@PLT
+	movq	%rax, -8(%rbp)
+	.loc 1 38 49
+	movq	-8(%rbp), %rax
+	movzbl	(%rax), %eax
+	.loc 1 38 2
+	movzbl	%al, %eax
+	movl	%eax, %edx
+	movl	$9, %esi
+	leaq	.LC10(%rip), %rax
+	movq	%rax, %rdi
+	call	testIntEqual@PLT
+	.loc 1 39 8
+	leaq	.LC11(%rip), %rax
+	movq	%rax, %rdi
+	call	abqParse@PLT
+	movq	%rax, -16(%rbp)
+	.loc 1 40 49
+	movq	-16(%rbp), %rax
+	movzbl	(%rax), %eax
+	.loc 1 40 2
+	movzbl	%al, %eax
+	movl	%eax, %edx
+	movl	$9, %esi
+	leaq	.LC10(%rip), %rax
+	movq	%rax, %rdi
+	call	testIntEqual@PLT
+	.loc 1 41 1
+	nop
+	leave
+	.cfi_def_cfa 7, 8
+	ret
+	.cfi_endproc
+.LFE2:
+	.size	testExquo, .-testExquo
+	.section	.rodata
+.LC12:
+	.string	"%pAbSynList"
+.LC13:
+	.string	"[]"
+.LC14:
+	.string	"emptyList"
+.LC15:
+	.string	"+%pAbSynList+"
+.LC16:
+	.string	"+[x]+"
+.LC17:
+	.string	"twoitem"
+.LC18:
+	.string	"y"
+.LC19:
+	.string	"+[x, y]+"
+	.text
+	.type	testAbSynFormatList, @function
+testAbSynFormatList:
+.LFB3:
+	.loc 1 46 1
+	.cfi_startproc
+	pushq	%rbp
+	.cfi_def_cfa_offset 16
+	.cfi_offset 6, -16
+	movq	%rsp, %rbp
+	.cfi_def_cfa_register 6
+	pushq	%r12
+	pushq	%rbx
+	subq	$32, %rsp
+	.cfi_offset 12, -24
+	.cfi_offset 3, -32
+	.loc 1 52 5
+	movq	$0, -24(%rbp)
+	.loc 1 53 7
+	call	bufNew@PLT
+	movq	%rax, -32(%rbp)
+	.loc 1 54 3
+	movq	-24(%rbp), %rdx
+	movq	-32(%rbp), %rax
+	leaq	.LC12(%rip), %rcx
+	movq	%rcx, %rsi
+	movq	%rax, %rdi
+	movl	$0, %eax
+	call	bufPrintf@PLT
+	.loc 1 55 12
+	movq	-32(%rbp), %rax
+	movq	%rax, %rdi
+	call	bufLiberate@PLT
+	movq	%rax, -40(%rbp)
+	.loc 1 56 3
+	movq	-40(%rbp), %rax
+	movq	%rax, %rdx
+	leaq	.LC13(%rip), %rax
+	movq	%rax, %rsi
+	leaq	.LC14(%rip), %rax
+	movq	%rax, %rdi
+	call	testStringEqual@PLT
+	.loc 1 59 25
+	movq	AbSyn_listPointer(%rip), %rax
+	movq	16(%rax), %rbx
+	leaq	.LC5(%rip), %rax
+	movq	%rax, %rdi
+	call	id@PLT
+	movq	%rax, %rsi
+	movl	$1, %edi
+	movl	$0, %eax
+	call	*%rbx
+.LVL0:
+	movq	%rax, -24(%rbp)
+	.loc 1 60 7
+	call	bufNew@PLT
+	movq	%rax, -32(%rbp)
+	.loc 1 61 3
+	movq	-24(%rbp), %rdx
+	movq	-32(%rbp), %rax
+	leaq	.LC15(%rip), %rcx
+	movq	%rcx, %rsi
+	movq	%rax, %rdi
+	movl	$0, %eax
+	call	bufPrintf@PLT
+	.loc 1 62 12
+	movq	-32(%rbp), %rax
+	movq	%rax, %rdi
+	call	bufLiberate@PLT
+	movq	%rax, -40(%rbp)
+	.loc 1 63 3
+	movq	-40(%rbp), %rax
+	movq	%rax, %rdx
+	leaq	.LC16(%rip), %rax
+	movq	%rax, %rsi
+	leaq	.LC17(%rip), %rax
+	movq	%rax, %rdi
+	call	testStringEqual@PLT
+	.loc 1 66 25
+	movq	AbSyn_listPointer(%rip), %rax
+	movq	16(%rax), %rbx
+	leaq	.LC18(%rip), %rax
+	movq	%rax, %rdi
+	call	id@PLT
+	movq	%rax, %r12
+	leaq	.LC5(%rip), %rax
+	movq	%rax, %rdi
+	call	id@PLT
+	movq	%r12, %rdx
+	movq	%rax, %rsi
+	movl	$2, %edi
+	movl	$0, %eax
+	call	*%rbx
+.LVL1:
+	movq	%rax, -24(%rbp)
+	.loc 1 67 7
+	call	bufNew@PLT
+	movq	%rax, -32(%rbp)
+	.loc 1 68 3
+	movq	-24(%rbp), %rdx
+	movq	-32(%rbp), %rax
+	leaq	.LC15(%rip), %rcx
+	movq	%rcx, %rsi
+	movq	%rax, %rdi
+	movl	$0, %eax
+	call	bufPrintf@PLT
+	.loc 1 69 12
+	movq	-32(%rbp), %rax
+	movq	%rax, %rdi
+	call	bufLiberate@PLT
+	movq	%rax, -40(%rbp)
+	.loc 1 70 3
+	movq	-40(%rbp), %rax
+	movq	%rax, %rdx
+	leaq	.LC19(%rip), %rax
+	movq	%rax, %rsi
+	leaq	.LC17(%rip), %rax
+	movq	%rax, %rdi
+	call	testStringEqual@PLT
+	.loc 1 72 1
+	nop
+	addq	$32, %rsp
+	popq	%rbx
+	popq	%r12
+	popq	%rbp
+	.cfi_def_cfa 7, 8
+	ret
+	.cfi_endproc
+.LFE3:
+	.size	testAbSynFormatList, .-testAbSynFormatList
+	.section	.rodata
+.LC20:
+	.string	"[%pAbSyn:%pAbSyn]"
+.LC21:
+	.string	"]"
+.LC22:
+	.string	":"
+.LC23:
+	.string	"["
+.LC24:
+	.string	"retlen"
+	.text
+	.type	testAbSynFormatOne, @function
+testAbSynFormatOne:
+.LFB4:
+	.loc 1 76 1
+	.cfi_startproc
+	pushq	%rbp
+	.cfi_def_cfa_offset 16
+	.cfi_offset 6, -16
+	movq	%rsp, %rbp
+	.cfi_def_cfa_register 6
+	subq	$64, %rsp
+	movq	%rdi, -40(%rbp)
+	movq	%rsi, -48(%rbp)
+	movq	%rdx, -56(%rbp)
+	.loc 1 77 13
+	call	bufNew@PLT
+	movq	%rax, -8(%rbp)
+	.loc 1 78 11
+	movq	-56(%rbp), %rcx
+	movq	-56(%rbp), %rdx
+	movq	-8(%rbp), %rax
+	leaq	.LC20(%rip), %rsi
+	movq	%rax, %rdi
+	movl	$0, %eax
+	call	bufPrintf@PLT
+	movl	%eax, -12(%rbp)
+	.loc 1 79 13
+	movq	-8(%rbp), %rax
+	movq	%rax, %rdi
+	call	bufLiberate@PLT
+	movq	%rax, -24(%rbp)
+	.loc 1 80 22
+	movq	-48(%rbp), %rdx
+	movq	-48(%rbp), %rax
+	movl	$0, %r9d
+	leaq	.LC21(%rip), %r8
+	movq	%rdx, %rcx
+	leaq	.LC22(%rip), %rdx
+	movq	%rax, %rsi
+	leaq	.LC23(%rip), %rax
+	movq	%rax, %rdi
+	movl	$0, %eax
+	call	strlConcat@PLT
+	movq	%rax, -32(%rbp)
+	.loc 1 81 2
+	movq	-24(%rbp), %rdx
+	movq	-32(%rbp), %rcx
+	movq	-40(%rbp), %rax
+	movq	%rcx, %rsi
+	movq	%rax, %rdi
+	call	testStringEqual@PLT
+	.loc 1 83 25
+	movq	-32(%rbp), %rax
+	movq	%rax, %rdi
+	call	strlen@PLT
+	.loc 1 83 2
+	movl	%eax, %ecx
+	movl	-12(%rbp), %eax
+	movl	%eax, %edx
+	movl	%ecx, %esi
+	leaq	.LC24(%rip), %rax
+	movq	%rax, %rdi
+	call	testIntEqual@PLT
+	.loc 1 84 2
+	movq	-32(%rbp), %rax
+	movq	%rax, %rdi
+	call	strFree@PLT
+	.loc 1 85 2
+	movq	-24(%rbp), %rax
+	movq	%rax, %rdi
+	call	strFree@PLT
+	.loc 1 86 1
+	nop
+	leave
+	.cfi_def_cfa 7, 8
+	ret
+	.cfi_endproc
+.LFE4:
+	.size	testAbSynFormatOne, .-testAbSynFormatOne
+	.section	.rodata
+.LC25:
+	.string	"x := y"
+.LC26:
+	.string	"%pAbSyn"
+.LC27:
+	.string	"(Assign x y)"
+.LC28:
+	.string	"compare strings:"
+	.text
+	.type	testAbParse, @function
+testAbParse:
+.LFB5:
+	.loc 1 90 1
+	.cfi_startproc
+	pushq	%rbp
+	.cfi_def_cfa_offset 16
+	.cfi_offset 6, -16
+	movq	%rsp, %rbp
+	.cfi_def_cfa_register 6
+	subq	$16, %rsp
+	.loc 1 91 13
+	leaq	.LC25(%rip), %rax
+	movq	%rax, %rdi
+	call	abqParse@PLT
+	movq	%rax, -8(%rbp)
+	.loc 1 93 13
+	movq	-8(%rbp), %rax
+	movq	%rax, %rsi
+	leaq	.LC26(%rip), %rax
+	movq	%rax, %rdi
+	movl	$0, %eax
+	call	aStrPrintf@PLT
+	movq	%rax, -16(%rbp)
+	.loc 1 95 2
+	movq	-16(%rbp), %rax
+	leaq	.LC27(%rip), %rdx
+	movq	%rax, %rsi
+	leaq	.LC28(%rip), %rax
+	movq	%rax, %rdi
+	call	testStringEqual@PLT
+	.loc 1 96 1
+	nop
+	leave
+	.cfi_def_cfa 7, 8
+	ret
+	.cfi_endproc
+.LFE5:
+	.size	testAbParse, .-testAbParse
+	.section	.rodata
+.LC29:
+	.string	"1"
+.LC30:
+	.string	"2"
+.LC31:
+	.string	"3"
+.LC32:
+	.string	"z"
+.LC33:
+	.string	"4"
+.LC34:
+	.string	"A has B"
+.LC35:
+	.string	"A"
+	.text
+	.type	testAbContains, @function
+testAbContains:
+.LFB6:
+	.loc 1 100 1
+	.cfi_startproc
+	pushq	%rbp
+	.cfi_def_cfa_offset 16
+	.cfi_offset 6, -16
+	movq	%rsp, %rbp
+	.cfi_def_cfa_register 6
+	subq	$16, %rsp
+	.loc 1 102 7
+	leaq	.LC25(%rip), %rax
+	movq	%rax, %rdi
+	call	abqParse@PLT
+	movq	%rax, -8(%rbp)
+	.loc 1 103 2
+	leaq	.LC5(%rip), %rax
+	movq	%rax, %rdi
+	call	id@PLT
+	movq	%rax, %rdx
+	movq	-8(%rbp), %rax
+	movq	%rdx, %rsi
+	movq	%rax, %rdi
+	call	abContains@PLT
+	movl	%eax, %esi
+	leaq	.LC29(%rip), %rax
+	movq	%rax, %rdi
+	call	testTrue@PLT
+	.loc 1 104 2
+	leaq	.LC18(%rip), %rax
+	movq	%rax, %rdi
+	call	id@PLT
+	movq	%rax, %rdx
+	movq	-8(%rbp), %rax
+	movq	%rdx, %rsi
+	movq	%rax, %rdi
+	call	abContains@PLT
+	movl	%eax, %esi
+	leaq	.LC30(%rip), %rax
+	movq	%rax, %rdi
+	call	testTrue@PLT
+	.loc 1 105 2
+	movq	-8(%rbp), %rdx
+	movq	-8(%rbp), %rax
+	movq	%rdx, %rsi
+	movq	%rax, %rdi
+	call	abContains@PLT
+	movl	%eax, %esi
+	leaq	.LC31(%rip), %rax
+	movq	%rax, %rdi
+	call	testTrue@PLT
+	.loc 1 106 2
+	leaq	.LC32(%rip), %rax
+	movq	%rax, %rdi
+	call	id@PLT
+	movq	%rax, %rdx
+	movq	-8(%rbp), %rax
+	movq	%rdx, %rsi
+	movq	%rax, %rdi
+	call	abContains@PLT
+	movl	%eax, %esi
+	leaq	.LC33(%rip), %rax
+	movq	%rax, %rdi
+	call	testFalse@PLT
+	.loc 1 108 8
+	leaq	.LC34(%rip), %rax
+	movq	%rax, %rdi
+	call	abqParse@PLT
+	movq	%rax, -16(%rbp)
+	.loc 1 109 2
+	leaq	.LC35(%rip), %rax
+	movq	%rax, %rdi
+	call	id@PLT
+	movq	%rax, %rdx
+	movq	-16(%rbp), %rax
+	movq	%rdx, %rsi
+	movq	%rax, %rdi
+	call	abContains@PLT
+	movl	%eax, %esi
+	leaq	.LC29(%rip), %rax
+	movq	%rax, %rdi
+	call	testTrue@PLT
+	.loc 1 111 1
+	nop
+	leave
+	.cfi_def_cfa 7, 8
+	ret
+	.cfi_endproc
+.LFE6:
+	.size	testAbContains, .-testAbContains
+.Letext0:
+	.file 2 "/usr/include/x86_64-linux-gnu/bits/types.h"
+	.file 3 "<built-in>"
+	.file 4 "/usr/lib/gcc/x86_64-linux-gnu/12/include/stddef.h"
+	.file 5 "/usr/include/x86_64-linux-gnu/bits/types/struct_FILE.h"
+	.file 6 "/usr/include/x86_64-linux-gnu/bits/types/FILE.h"
+	.file 7 "./cport.h"
+	.file 8 "./buffer.h"
+	.file 9 "./ostream.h"
+	.file 10 "./axlgen.h"
+	.file 11 "./srcpos.h"
+	.file 12 "./axlobs.h"
+	.file 13 "./symbol.h"
+	.file 14 "./absyn.h"
+	.file 15 "test/testlib.h"
+	.file 16 "./format.h"
+	.file 17 "./strops.h"
+	.file 18 "/usr/include/string.h"
+	.file 19 "test/abquick.h"
+	.section	.debug_info,"",@progbits
+.Ldebug_info0:
+	.long	0x22ff
+	.value	0x5
+	.byte	0x1
+	.byte	0x8
+	.long	.Ldebug_abbrev0
+	.uleb128 0x25
+	.long	.LASF368
+	.byte	0xc
+	.long	.LASF0
+	.long	.LASF1
+	.quad	.Ltext0
+	.quad	.Letext0-.Ltext0
+	.long	.Ldebug_line0
+	.uleb128 0x26
+	.byte	0x4
+	.byte	0x5
+	.string	"int"
+	.uleb128 0xc
+	.byte	0x1
+	.byte	0x8
+	.long	.LASF2
+	.uleb128 0xc
+	.byte	0x2
+	.byte	0x7
+	.long	.LASF3
+	.uleb128 0xc
+	.byte	0x4
+	.byte	0x7
+	.long	.LASF4
+	.uleb128 0xc
+	.byte	0x8
+	.byte	0x7
+	.long	.LASF5
+	.uleb128 0xc
+	.byte	0x1
+	.byte	0x6
+	.long	.LASF6
+	.uleb128 0xc
+	.byte	0x2
+	.byte	0x5
+	.long	.LASF7
+	.uleb128 0xc
+	.byte	0x8
+	.byte	0x5
+	.long	.LASF8
+	.uleb128 0xb
+	.long	.LASF9
+	.byte	0x2
+	.byte	0x98
+	.byte	0x12
+	.long	0x5f
+	.uleb128 0xb
+	.long	.LASF10
+	.byte	0x2
+	.byte	0x99
+	.byte	0x12
+	.long	0x5f
+	.uleb128 0x27
+	.byte	0x8
+	.uleb128 0x7
+	.long	0x85
+	.uleb128 0xc
+	.byte	0x1
+	.byte	0x6
+	.long	.LASF11
+	.uleb128 0x1c
+	.long	0x85
+	.uleb128 0xc
+	.byte	0x4
+	.byte	0x4
+	.long	.LASF12
+	.uleb128 0xc
+	.byte	0x8
+	.byte	0x4
+	.long	.LASF13
+	.uleb128 0x28
+	.long	.LASF369
+	.byte	0x18
+	.byte	0x3
+	.byte	0
+	.long	0xd4
+	.uleb128 0x16
+	.long	.LASF14
+	.long	0x43
+	.byte	0
+	.uleb128 0x16
+	.long	.LASF15
+	.long	0x43
+	.byte	0x4
+	.uleb128 0x16
+	.long	.LASF16
+	.long	0x7e
+	.byte	0x8
+	.uleb128 0x16
+	.long	.LASF17
+	.long	0x7e
+	.byte	0x10
+	.byte	0
+	.uleb128 0xb
+	.long	.LASF18
+	.byte	0x4
+	.byte	0xd6
+	.byte	0x1b
+	.long	0x4a
+	.uleb128 0xf
+	.long	.LASF65
+	.byte	0xd8
+	.byte	0x5
+	.byte	0x31
+	.byte	0x8
+	.long	0x267
+	.uleb128 0x8
+	.long	.LASF19
+	.byte	0x5
+	.byte	0x33
+	.byte	0x7
+	.long	0x2e
+	.byte	0
+	.uleb128 0x8
+	.long	.LASF20
+	.byte	0x5
+	.byte	0x36
+	.byte	0x9
+	.long	0x80
+	.byte	0x8
+	.uleb128 0x8
+	.long	.LASF21
+	.byte	0x5
+	.byte	0x37
+	.byte	0x9
+	.long	0x80
+	.byte	0x10
+	.uleb128 0x8
+	.long	.LASF22
+	.byte	0x5
+	.byte	0x38
+	.byte	0x9
+	.long	0x80
+	.byte	0x18
+	.uleb128 0x8
+	.long	.LASF23
+	.byte	0x5
+	.byte	0x39
+	.byte	0x9
+	.long	0x80
+	.byte	0x20
+	.uleb128 0x8
+	.long	.LASF24
+	.byte	0x5
+	.byte	0x3a
+	.byte	0x9
+	.long	0x80
+	.byte	0x28
+	.uleb128 0x8
+	.long	.LASF25
+	.byte	0x5
+	.byte	0x3b
+	.byte	0x9
+	.long	0x80
+	.byte	0x30
+	.uleb128 0x8
+	.long	.LASF26
+	.byte	0x5
+	.byte	0x3c
+	.byte	0x9
+	.long	0x80
+	.byte	0x38
+	.uleb128 0x8
+	.long	.LASF27
+	.byte	0x5
+	.byte	0x3d
+	.byte	0x9
+	.long	0x80
+	.byte	0x40
+	.uleb128 0x8
+	.long	.LASF28
+	.byte	0x5
+	.byte	0x40
+	.byte	0x9
+	.long	0x80
+	.byte	0x48
+	.uleb128 0x8
+	.long	.LASF29
+	.byte	0x5
+	.byte	0x41
+	.byte	0x9
+	.long	0x80
+	.byte	0x50
+	.uleb128 0x8
+	.long	.LASF30
+	.byte	0x5
+	.byte	0x42
+	.byte	0x9
+	.long	0x80
+	.byte	0x58
+	.uleb128 0x8
+	.long	.LASF31
+	.byte	0x5
+	.byte	0x44
+	.byte	0x16
+	.long	0x280
+	.byte	0x60
+	.uleb128 0x8
+	.long	.LASF32
+	.byte	0x5
+	.byte	0x46
+	.byte	0x14
+	.long	0x285
+	.byte	0x68
+	.uleb128 0x8
+	.long	.LASF33
+	.byte	0x5
+	.byte	0x48
+	.byte	0x7
+	.long	0x2e
+	.byte	0x70
+	.uleb128 0x8
+	.long	.LASF34
+	.byte	0x5
+	.byte	0x49
+	.byte	0x7
+	.long	0x2e
+	.byte	0x74
+	.uleb128 0x8
+	.long	.LASF35
+	.byte	0x5
+	.byte	0x4a
+	.byte	0xb
+	.long	0x66
+	.byte	0x78
+	.uleb128 0x8
+	.long	.LASF36
+	.byte	0x5
+	.byte	0x4d
+	.byte	0x12
+	.long	0x3c
+	.byte	0x80
+	.uleb128 0x8
+	.long	.LASF37
+	.byte	0x5
+	.byte	0x4e
+	.byte	0xf
+	.long	0x51
+	.byte	0x82
+	.uleb128 0x8
+	.long	.LASF38
+	.byte	0x5
+	.byte	0x4f
+	.byte	0x8
+	.long	0x28a
+	.byte	0x83
+	.uleb128 0x8
+	.long	.LASF39
+	.byte	0x5
+	.byte	0x51
+	.byte	0xf
+	.long	0x29a
+	.byte	0x88
+	.uleb128 0x8
+	.long	.LASF40
+	.byte	0x5
+	.byte	0x59
+	.byte	0xd
+	.long	0x72
+	.byte	0x90
+	.uleb128 0x8
+	.long	.LASF41
+	.byte	0x5
+	.byte	0x5b
+	.byte	0x17
+	.long	0x2a4
+	.byte	0x98
+	.uleb128 0x8
+	.long	.LASF42
+	.byte	0x5
+	.byte	0x5c
+	.byte	0x19
+	.long	0x2ae
+	.byte	0xa0
+	.uleb128 0x8
+	.long	.LASF43
+	.byte	0x5
+	.byte	0x5d
+	.byte	0x14
+	.long	0x285
+	.byte	0xa8
+	.uleb128 0x8
+	.long	.LASF44
+	.byte	0x5
+	.byte	0x5e
+	.byte	0x9
+	.long	0x7e
+	.byte	0xb0
+	.uleb128 0x8
+	.long	.LASF45
+	.byte	0x5
+	.byte	0x5f
+	.byte	0xa
+	.long	0xd4
+	.byte	0xb8
+	.uleb128 0x8
+	.long	.LASF46
+	.byte	0x5
+	.byte	0x60
+	.byte	0x7
+	.long	0x2e
+	.byte	0xc0
+	.uleb128 0x8
+	.long	.LASF47
+	.byte	0x5
+	.byte	0x62
+	.byte	0x8
+	.long	0x2b3
+	.byte	0xc4
+	.byte	0
+	.uleb128 0xb
+	.long	.LASF48
+	.byte	0x6
+	.byte	0x7
+	.byte	0x19
+	.long	0xe0
+	.uleb128 0x29
+	.long	.LASF370
+	.byte	0x5
+	.byte	0x2b
+	.byte	0xe
+	.uleb128 0x10
+	.long	.LASF49
+	.uleb128 0x7
+	.long	0x27b
+	.uleb128 0x7
+	.long	0xe0
+	.uleb128 0x18
+	.long	0x85
+	.long	0x29a
+	.uleb128 0x19
+	.long	0x4a
+	.byte	0
+	.byte	0
+	.uleb128 0x7
+	.long	0x273
+	.uleb128 0x10
+	.long	.LASF50
+	.uleb128 0x7
+	.long	0x29f
+	.uleb128 0x10
+	.long	.LASF51
+	.uleb128 0x7
+	.long	0x2a9
+	.uleb128 0x18
+	.long	0x85
+	.long	0x2c3
+	.uleb128 0x19
+	.long	0x4a
+	.byte	0x13
+	.byte	0
+	.uleb128 0x7
+	.long	0x267
+	.uleb128 0xc
+	.byte	0x8
+	.byte	0x5
+	.long	.LASF52
+	.uleb128 0x7
+	.long	0x8c
+	.uleb128 0xe
+	.long	.LASF53
+	.byte	0x7
+	.value	0x138
+	.byte	0x17
+	.long	0x35
+	.uleb128 0xe
+	.long	.LASF54
+	.byte	0x7
+	.value	0x13a
+	.byte	0x17
+	.long	0x4a
+	.uleb128 0xe
+	.long	.LASF55
+	.byte	0x7
+	.value	0x156
+	.byte	0xd
+	.long	0x2e
+	.uleb128 0xe
+	.long	.LASF56
+	.byte	0x7
+	.value	0x158
+	.byte	0x10
+	.long	0xd4
+	.uleb128 0xe
+	.long	.LASF57
+	.byte	0x7
+	.value	0x166
+	.byte	0x12
+	.long	0x7e
+	.uleb128 0xe
+	.long	.LASF58
+	.byte	0x7
+	.value	0x16a
+	.byte	0xf
+	.long	0x80
+	.uleb128 0xe
+	.long	.LASF59
+	.byte	0x7
+	.value	0x16b
+	.byte	0x15
+	.long	0x2cf
+	.uleb128 0xe
+	.long	.LASF60
+	.byte	0x7
+	.value	0x17a
+	.byte	0x10
+	.long	0x98
+	.uleb128 0xb
+	.long	.LASF61
+	.byte	0x8
+	.byte	0x10
+	.byte	0x18
+	.long	0x348
+	.uleb128 0x7
+	.long	0x34d
+	.uleb128 0x10
+	.long	.LASF62
+	.uleb128 0xb
+	.long	.LASF63
+	.byte	0x9
+	.byte	0x7
+	.byte	0xf
+	.long	0x35e
+	.uleb128 0x7
+	.long	0x363
+	.uleb128 0x9
+	.long	0x2e
+	.long	0x377
+	.uleb128 0x1
+	.long	0x322
+	.uleb128 0x1
+	.long	0x2e
+	.byte	0
+	.uleb128 0xb
+	.long	.LASF64
+	.byte	0x9
+	.byte	0x9
+	.byte	0x19
+	.long	0x383
+	.uleb128 0x7
+	.long	0x388
+	.uleb128 0xf
+	.long	.LASF66
+	.byte	0x10
+	.byte	0x9
+	.byte	0x15
+	.byte	0x8
+	.long	0x3b0
+	.uleb128 0x1d
+	.string	"ops"
+	.byte	0x9
+	.byte	0x16
+	.byte	0xd
+	.long	0x44c
+	.byte	0
+	.uleb128 0x8
+	.long	.LASF67
+	.byte	0x9
+	.byte	0x1a
+	.byte	0x4
+	.long	0x45d
+	.byte	0x8
+	.byte	0
+	.uleb128 0xb
+	.long	.LASF68
+	.byte	0x9
+	.byte	0xb
+	.byte	0xe
+	.long	0x3bc
+	.uleb128 0x12
+	.long	0x3cc
+	.uleb128 0x1
+	.long	0x377
+	.uleb128 0x1
+	.long	0x85
+	.byte	0
+	.uleb128 0xb
+	.long	.LASF69
+	.byte	0x9
+	.byte	0xc
+	.byte	0xd
+	.long	0x3d8
+	.uleb128 0x9
+	.long	0x2e
+	.long	0x3f1
+	.uleb128 0x1
+	.long	0x377
+	.uleb128 0x1
+	.long	0x2cf
+	.uleb128 0x1
+	.long	0x2e
+	.byte	0
+	.uleb128 0xb
+	.long	.LASF70
+	.byte	0x9
+	.byte	0xd
+	.byte	0xe
+	.long	0x3fd
+	.uleb128 0x12
+	.long	0x408
+	.uleb128 0x1
+	.long	0x377
+	.byte	0
+	.uleb128 0xf
+	.long	.LASF71
+	.byte	0x18
+	.byte	0x9
+	.byte	0xf
+	.byte	0x10
+	.long	0x43d
+	.uleb128 0x8
+	.long	.LASF72
+	.byte	0x9
+	.byte	0x10
+	.byte	0x12
+	.long	0x43d
+	.byte	0
+	.uleb128 0x8
+	.long	.LASF73
+	.byte	0x9
+	.byte	0x11
+	.byte	0x14
+	.long	0x442
+	.byte	0x8
+	.uleb128 0x8
+	.long	.LASF74
+	.byte	0x9
+	.byte	0x12
+	.byte	0xe
+	.long	0x447
+	.byte	0x10
+	.byte	0
+	.uleb128 0x7
+	.long	0x3b0
+	.uleb128 0x7
+	.long	0x3cc
+	.uleb128 0x7
+	.long	0x3f1
+	.uleb128 0xb
+	.long	.LASF75
+	.byte	0x9
+	.byte	0x13
+	.byte	0x4
+	.long	0x458
+	.uleb128 0x7
+	.long	0x408
+	.uleb128 0x2a
+	.byte	0x8
+	.byte	0x9
+	.byte	0x17
+	.byte	0x2
+	.long	0x47d
+	.uleb128 0x1e
+	.string	"obj"
+	.byte	0x18
+	.byte	0xb
+	.long	0x308
+	.uleb128 0x1e
+	.string	"fun"
+	.byte	0x19
+	.byte	0x11
+	.long	0x352
+	.byte	0
+	.uleb128 0x7
+	.long	0x9f
+	.uleb128 0x7
+	.long	0x2e
+	.uleb128 0xb
+	.long	.LASF76
+	.byte	0xa
+	.byte	0x29
+	.byte	0xf
+	.long	0x2e1
+	.uleb128 0xb
+	.long	.LASF77
+	.byte	0xa
+	.byte	0x2a
+	.byte	0x1b
+	.long	0x49f
+	.uleb128 0x7
+	.long	0x4a4
+	.uleb128 0xf
+	.long	.LASF78
+	.byte	0x10
+	.byte	0xb
+	.byte	0x43
+	.byte	0x8
+	.long	0x4cc
+	.uleb128 0x8
+	.long	.LASF79
+	.byte	0xb
+	.byte	0x44
+	.byte	0x9
+	.long	0x487
+	.byte	0
+	.uleb128 0x8
+	.long	.LASF80
+	.byte	0xb
+	.byte	0x45
+	.byte	0xe
+	.long	0x4cc
+	.byte	0x8
+	.byte	0
+	.uleb128 0xb
+	.long	.LASF81
+	.byte	0xa
+	.byte	0x2b
+	.byte	0x19
+	.long	0x4d8
+	.uleb128 0x2b
+	.long	.LASF87
+	.byte	0x8
+	.byte	0xb
+	.byte	0x3e
+	.byte	0x7
+	.long	0x4fc
+	.uleb128 0x1f
+	.long	.LASF79
+	.byte	0x3f
+	.byte	0x9
+	.long	0x487
+	.uleb128 0x1f
+	.long	.LASF82
+	.byte	0x40
+	.byte	0xd
+	.long	0x493
+	.byte	0
+	.uleb128 0xb
+	.long	.LASF83
+	.byte	0xc
+	.byte	0x19
+	.byte	0x19
+	.long	0x508
+	.uleb128 0x7
+	.long	0x50d
+	.uleb128 0xf
+	.long	.LASF84
+	.byte	0x10
+	.byte	0xd
+	.byte	0x19
+	.byte	0x8
+	.long	0x535
+	.uleb128 0x8
+	.long	.LASF85
+	.byte	0xd
+	.byte	0x1a
+	.byte	0x13
+	.long	0xf7f
+	.byte	0
+	.uleb128 0x1d
+	.string	"str"
+	.byte	0xd
+	.byte	0x1b
+	.byte	0x9
+	.long	0x315
+	.byte	0x8
+	.byte	0
+	.uleb128 0x2c
+	.string	"Doc"
+	.byte	0xc
+	.byte	0x1c
+	.byte	0x16
+	.long	0x541
+	.uleb128 0x7
+	.long	0x546
+	.uleb128 0x2d
+	.string	"doc"
+	.uleb128 0xb
+	.long	.LASF86
+	.byte	0xc
+	.byte	0x1d
+	.byte	0x17
+	.long	0x557
+	.uleb128 0x7
+	.long	0x55c
+	.uleb128 0x2e
+	.long	.LASF88
+	.byte	0x80
+	.byte	0xe
+	.value	0x2e0
+	.byte	0x7
+	.long	0x8d7
+	.uleb128 0x5
+	.long	.LASF89
+	.value	0x2e4
+	.byte	0xf
+	.long	0x1245
+	.uleb128 0x5
+	.long	.LASF90
+	.value	0x2e5
+	.byte	0xf
+	.long	0x12f6
+	.uleb128 0x5
+	.long	.LASF91
+	.value	0x2ec
+	.byte	0x11
+	.long	0x131d
+	.uleb128 0x5
+	.long	.LASF92
+	.value	0x2ed
+	.byte	0xe
+	.long	0x1344
+	.uleb128 0x5
+	.long	.LASF93
+	.value	0x2ee
+	.byte	0x10
+	.long	0x136b
+	.uleb128 0x5
+	.long	.LASF94
+	.value	0x2f0
+	.byte	0x13
+	.long	0x1392
+	.uleb128 0x5
+	.long	.LASF95
+	.value	0x2f1
+	.byte	0x16
+	.long	0x13b9
+	.uleb128 0x5
+	.long	.LASF96
+	.value	0x2f2
+	.byte	0x15
+	.long	0x1407
+	.uleb128 0x5
+	.long	.LASF97
+	.value	0x2f3
+	.byte	0x14
+	.long	0x13e0
+	.uleb128 0x5
+	.long	.LASF98
+	.value	0x2f6
+	.byte	0xf
+	.long	0x142e
+	.uleb128 0x5
+	.long	.LASF99
+	.value	0x2f7
+	.byte	0xf
+	.long	0x1462
+	.uleb128 0x5
+	.long	.LASF100
+	.value	0x2f8
+	.byte	0x11
+	.long	0x1489
+	.uleb128 0x5
+	.long	.LASF101
+	.value	0x2f9
+	.byte	0x12
+	.long	0x14bc
+	.uleb128 0x5
+	.long	.LASF102
+	.value	0x2fa
+	.byte	0x12
+	.long	0x14e3
+	.uleb128 0x5
+	.long	.LASF103
+	.value	0x2fb
+	.byte	0x11
+	.long	0x1517
+	.uleb128 0x5
+	.long	.LASF104
+	.value	0x2fc
+	.byte	0x13
+	.long	0x153e
+	.uleb128 0x5
+	.long	.LASF105
+	.value	0x2fd
+	.byte	0x13
+	.long	0x1565
+	.uleb128 0x5
+	.long	.LASF106
+	.value	0x2fe
+	.byte	0x14
+	.long	0x15f3
+	.uleb128 0x5
+	.long	.LASF107
+	.value	0x2ff
+	.byte	0x13
+	.long	0x1627
+	.uleb128 0x5
+	.long	.LASF108
+	.value	0x300
+	.byte	0x11
+	.long	0x165b
+	.uleb128 0x5
+	.long	.LASF109
+	.value	0x301
+	.byte	0x13
+	.long	0x1682
+	.uleb128 0x5
+	.long	.LASF110
+	.value	0x302
+	.byte	0x12
+	.long	0x16a9
+	.uleb128 0x5
+	.long	.LASF111
+	.value	0x303
+	.byte	0x13
+	.long	0x16dd
+	.uleb128 0x5
+	.long	.LASF112
+	.value	0x304
+	.byte	0xe
+	.long	0x1598
+	.uleb128 0x5
+	.long	.LASF113
+	.value	0x305
+	.byte	0x16
+	.long	0x15bf
+	.uleb128 0x5
+	.long	.LASF114
+	.value	0x306
+	.byte	0x12
+	.long	0x1704
+	.uleb128 0x5
+	.long	.LASF115
+	.value	0x307
+	.byte	0x10
+	.long	0x1738
+	.uleb128 0x5
+	.long	.LASF116
+	.value	0x308
+	.byte	0x12
+	.long	0x176c
+	.uleb128 0x5
+	.long	.LASF117
+	.value	0x309
+	.byte	0x12
+	.long	0x17ad
+	.uleb128 0x5
+	.long	.LASF118
+	.value	0x30a
+	.byte	0xf
+	.long	0x17d4
+	.uleb128 0x5
+	.long	.LASF119
+	.value	0x30b
+	.byte	0x11
+	.long	0x17fb
+	.uleb128 0x5
+	.long	.LASF120
+	.value	0x30c
+	.byte	0xf
+	.long	0x1822
+	.uleb128 0x5
+	.long	.LASF121
+	.value	0x30d
+	.byte	0x19
+	.long	0x1863
+	.uleb128 0x5
+	.long	.LASF122
+	.value	0x30e
+	.byte	0x19
+	.long	0x1897
+	.uleb128 0x5
+	.long	.LASF123
+	.value	0x30f
+	.byte	0x10
+	.long	0x18cb
+	.uleb128 0x5
+	.long	.LASF124
+	.value	0x310
+	.byte	0x14
+	.long	0x18f2
+	.uleb128 0x5
+	.long	.LASF125
+	.value	0x311
+	.byte	0x10
+	.long	0x1926
+	.uleb128 0x5
+	.long	.LASF126
+	.value	0x312
+	.byte	0xf
+	.long	0x194d
+	.uleb128 0x5
+	.long	.LASF127
+	.value	0x313
+	.byte	0x10
+	.long	0x1981
+	.uleb128 0x5
+	.long	.LASF128
+	.value	0x314
+	.byte	0x10
+	.long	0x19a8
+	.uleb128 0x5
+	.long	.LASF129
+	.value	0x315
+	.byte	0xe
+	.long	0x19cf
+	.uleb128 0x5
+	.long	.LASF130
+	.value	0x316
+	.byte	0x12
+	.long	0x1a10
+	.uleb128 0x5
+	.long	.LASF131
+	.value	0x317
+	.byte	0x12
+	.long	0x1a44
+	.uleb128 0x5
+	.long	.LASF132
+	.value	0x318
+	.byte	0x13
+	.long	0x1a78
+	.uleb128 0x5
+	.long	.LASF133
+	.value	0x319
+	.byte	0x11
+	.long	0x1a9f
+	.uleb128 0x5
+	.long	.LASF134
+	.value	0x31a
+	.byte	0x12
+	.long	0x1ad3
+	.uleb128 0x5
+	.long	.LASF135
+	.value	0x31b
+	.byte	0xf
+	.long	0x1b14
+	.uleb128 0x5
+	.long	.LASF136
+	.value	0x31c
+	.byte	0x11
+	.long	0x1b48
+	.uleb128 0x5
+	.long	.LASF137
+	.value	0x31d
+	.byte	0x11
+	.long	0x1b6f
+	.uleb128 0x5
+	.long	.LASF138
+	.value	0x31e
+	.byte	0x13
+	.long	0x1b96
+	.uleb128 0x5
+	.long	.LASF139
+	.value	0x31f
+	.byte	0x13
+	.long	0x1bca
+	.uleb128 0x5
+	.long	.LASF140
+	.value	0x320
+	.byte	0x11
+	.long	0x1bfe
+	.uleb128 0x5
+	.long	.LASF141
+	.value	0x321
+	.byte	0xf
+	.long	0x1c18
+	.uleb128 0x5
+	.long	.LASF142
+	.value	0x322
+	.byte	0x13
+	.long	0x1c3f
+	.uleb128 0x5
+	.long	.LASF143
+	.value	0x323
+	.byte	0xe
+	.long	0x1c59
+	.uleb128 0x5
+	.long	.LASF144
+	.value	0x324
+	.byte	0x11
+	.long	0x1c80
+	.uleb128 0x5
+	.long	.LASF145
+	.value	0x325
+	.byte	0x13
+	.long	0x1ca7
+	.uleb128 0x5
+	.long	.LASF146
+	.value	0x326
+	.byte	0x15
+	.long	0x1ce8
+	.uleb128 0x5
+	.long	.LASF147
+	.value	0x327
+	.byte	0x13
+	.long	0x1d1c
+	.uleb128 0x5
+	.long	.LASF148
+	.value	0x328
+	.byte	0x11
+	.long	0x1d50
+	.uleb128 0x5
+	.long	.LASF149
+	.value	0x329
+	.byte	0x15
+	.long	0x1d77
+	.uleb128 0x5
+	.long	.LASF150
+	.value	0x32a
+	.byte	0x12
+	.long	0x1d9e
+	.uleb128 0x5
+	.long	.LASF151
+	.value	0x32b
+	.byte	0x16
+	.long	0x1dd2
+	.uleb128 0x5
+	.long	.LASF152
+	.value	0x32c
+	.byte	0x15
+	.long	0x1e06
+	.uleb128 0x5
+	.long	.LASF153
+	.value	0x32d
+	.byte	0x12
+	.long	0x1e3a
+	.uleb128 0x5
+	.long	.LASF154
+	.value	0x32e
+	.byte	0x12
+	.long	0x1e61
+	.uleb128 0x5
+	.long	.LASF155
+	.value	0x32f
+	.byte	0x14
+	.long	0x1e95
+	.uleb128 0x5
+	.long	.LASF156
+	.value	0x330
+	.byte	0x10
+	.long	0x1ebc
+	.uleb128 0x5
+	.long	.LASF157
+	.value	0x331
+	.byte	0xf
+	.long	0x1ee3
+	.uleb128 0x5
+	.long	.LASF158
+	.value	0x332
+	.byte	0x11
+	.long	0x1f30
+	.uleb128 0x5
+	.long	.LASF159
+	.value	0x333
+	.byte	0x11
+	.long	0x1f64
+	.uleb128 0x5
+	.long	.LASF160
+	.value	0x334
+	.byte	0x10
+	.long	0x1f8b
+	.uleb128 0x5
+	.long	.LASF161
+	.value	0x335
+	.byte	0x11
+	.long	0x1fbf
+	.byte	0
+	.uleb128 0xb
+	.long	.LASF162
+	.byte	0xc
+	.byte	0x23
+	.byte	0x17
+	.long	0x8e3
+	.uleb128 0x7
+	.long	0x8e8
+	.uleb128 0x10
+	.long	.LASF163
+	.uleb128 0xb
+	.long	.LASF164
+	.byte	0xc
+	.byte	0x24
+	.byte	0x18
+	.long	0x8f9
+	.uleb128 0x7
+	.long	0x8fe
+	.uleb128 0x10
+	.long	.LASF165
+	.uleb128 0xb
+	.long	.LASF166
+	.byte	0xc
+	.byte	0x25
+	.byte	0x18
+	.long	0x90f
+	.uleb128 0x7
+	.long	0x914
+	.uleb128 0x10
+	.long	.LASF167
+	.uleb128 0xb
+	.long	.LASF168
+	.byte	0xc
+	.byte	0x2e
+	.byte	0x1c
+	.long	0x925
+	.uleb128 0x7
+	.long	0x92a
+	.uleb128 0x10
+	.long	.LASF169
+	.uleb128 0xb
+	.long	.LASF170
+	.byte	0xc
+	.byte	0x2f
+	.byte	0x24
+	.long	0x93b
+	.uleb128 0x7
+	.long	0x940
+	.uleb128 0xf
+	.long	.LASF171
+	.byte	0x10
+	.byte	0xc
+	.byte	0x56
+	.byte	0x10
+	.long	0x968
+	.uleb128 0x8
+	.long	.LASF172
+	.byte	0xc
+	.byte	0x56
+	.byte	0x2e
+	.long	0x919
+	.byte	0
+	.uleb128 0x8
+	.long	.LASF80
+	.byte	0xc
+	.byte	0x56
+	.byte	0x4f
+	.long	0x93b
+	.byte	0x8
+	.byte	0
+	.uleb128 0xb
+	.long	.LASF173
+	.byte	0xc
+	.byte	0x3a
+	.byte	0x18
+	.long	0x974
+	.uleb128 0x7
+	.long	0x979
+	.uleb128 0x2f
+	.long	.LASF371
+	.uleb128 0xf
+	.long	.LASF174
+	.byte	0x10
+	.byte	0xc
+	.byte	0x4f
+	.byte	0x10
+	.long	0x9a6
+	.uleb128 0x8
+	.long	.LASF172
+	.byte	0xc
+	.byte	0x4f
+	.byte	0x26
+	.long	0x54b
+	.byte	0
+	.uleb128 0x8
+	.long	.LASF80
+	.byte	0xc
+	.byte	0x4f
+	.byte	0x43
+	.long	0x9a6
+	.byte	0x8
+	.byte	0
+	.uleb128 0x7
+	.long	0x97e
+	.uleb128 0xb
+	.long	.LASF175
+	.byte	0xc
+	.byte	0x4f
+	.byte	0x4c
+	.long	0x9a6
+	.uleb128 0x30
+	.long	.LASF176
+	.value	0x140
+	.byte	0xc
+	.byte	0x4f
+	.byte	0x5e
+	.long	0xbb4
+	.uleb128 0x8
+	.long	.LASF177
+	.byte	0xc
+	.byte	0x4f
+	.byte	0x80
+	.long	0xbcd
+	.byte	0
+	.uleb128 0x8
+	.long	.LASF178
+	.byte	0xc
+	.byte	0x4f
+	.byte	0xa6
+	.long	0xbe1
+	.byte	0x8
+	.uleb128 0x8
+	.long	.LASF179
+	.byte	0xc
+	.byte	0x4f
+	.byte	0xc6
+	.long	0xbf6
+	.byte	0x10
+	.uleb128 0x8
+	.long	.LASF180
+	.byte	0xc
+	.byte	0x4f
+	.byte	0xe6
+	.long	0xc0a
+	.byte	0x18
+	.uleb128 0xa
+	.long	.LASF181
+	.value	0x109
+	.long	0xc1f
+	.byte	0x20
+	.uleb128 0xa
+	.long	.LASF182
+	.value	0x128
+	.long	0xc56
+	.byte	0x28
+	.uleb128 0xa
+	.long	.LASF183
+	.value	0x169
+	.long	0xc79
+	.byte	0x30
+	.uleb128 0xa
+	.long	.LASF184
+	.value	0x1af
+	.long	0xc8d
+	.byte	0x38
+	.uleb128 0xa
+	.long	.LASF185
+	.value	0x1cd
+	.long	0xc9d
+	.byte	0x40
+	.uleb128 0xa
+	.long	.LASF186
+	.value	0x1ec
+	.long	0xcb6
+	.byte	0x48
+	.uleb128 0xa
+	.long	.LASF187
+	.value	0x213
+	.long	0xcdb
+	.byte	0x50
+	.uleb128 0xa
+	.long	.LASF188
+	.value	0x24a
+	.long	0xcf9
+	.byte	0x58
+	.uleb128 0xa
+	.long	.LASF189
+	.value	0x290
+	.long	0xd2b
+	.byte	0x60
+	.uleb128 0x20
+	.string	"Elt"
+	.byte	0x4f
+	.value	0x2d4
+	.long	0xd44
+	.byte	0x68
+	.uleb128 0xa
+	.long	.LASF190
+	.value	0x2fa
+	.long	0xd5d
+	.byte	0x70
+	.uleb128 0xa
+	.long	.LASF191
+	.value	0x321
+	.long	0xc8d
+	.byte	0x78
+	.uleb128 0xa
+	.long	.LASF192
+	.value	0x341
+	.long	0xd71
+	.byte	0x80
+	.uleb128 0xa
+	.long	.LASF193
+	.value	0x35e
+	.long	0xd8a
+	.byte	0x88
+	.uleb128 0xa
+	.long	.LASF194
+	.value	0x384
+	.long	0xd8a
+	.byte	0x90
+	.uleb128 0xa
+	.long	.LASF195
+	.value	0x3ab
+	.long	0xd8a
+	.byte	0x98
+	.uleb128 0xa
+	.long	.LASF196
+	.value	0x3d6
+	.long	0xc8d
+	.byte	0xa0
+	.uleb128 0xa
+	.long	.LASF197
+	.value	0x3f5
+	.long	0xcb6
+	.byte	0xa8
+	.uleb128 0xa
+	.long	.LASF198
+	.value	0x421
+	.long	0xdb7
+	.byte	0xb0
+	.uleb128 0xa
+	.long	.LASF199
+	.value	0x458
+	.long	0xdd5
+	.byte	0xb8
+	.uleb128 0x20
+	.string	"Map"
+	.byte	0x4f
+	.value	0x49c
+	.long	0xdee
+	.byte	0xc0
+	.uleb128 0xa
+	.long	.LASF200
+	.value	0x4cd
+	.long	0xdee
+	.byte	0xc8
+	.uleb128 0xa
+	.long	.LASF201
+	.value	0x4ff
+	.long	0xc8d
+	.byte	0xd0
+	.uleb128 0xa
+	.long	.LASF202
+	.value	0x521
+	.long	0xc8d
+	.byte	0xd8
+	.uleb128 0xa
+	.long	.LASF203
+	.value	0x544
+	.long	0xcb6
+	.byte	0xe0
+	.uleb128 0xa
+	.long	.LASF204
+	.value	0x570
+	.long	0xcb6
+	.byte	0xe8
+	.uleb128 0xa
+	.long	.LASF205
+	.value	0x598
+	.long	0xe07
+	.byte	0xf0
+	.uleb128 0xa
+	.long	.LASF206
+	.value	0x5b9
+	.long	0xe25
+	.byte	0xf8
+	.uleb128 0x11
+	.long	.LASF207
+	.value	0x5f5
+	.long	0xe3e
+	.value	0x100
+	.uleb128 0x11
+	.long	.LASF208
+	.value	0x621
+	.long	0xe57
+	.value	0x108
+	.uleb128 0x11
+	.long	.LASF209
+	.value	0x641
+	.long	0xe75
+	.value	0x110
+	.uleb128 0x11
+	.long	.LASF210
+	.value	0x684
+	.long	0xe93
+	.value	0x118
+	.uleb128 0x11
+	.long	.LASF211
+	.value	0x6c1
+	.long	0xead
+	.value	0x120
+	.uleb128 0x11
+	.long	.LASF212
+	.value	0x6e9
+	.long	0xee4
+	.value	0x128
+	.uleb128 0x11
+	.long	.LASF213
+	.value	0x726
+	.long	0xf11
+	.value	0x130
+	.uleb128 0x11
+	.long	.LASF214
+	.value	0x77c
+	.long	0xf2f
+	.value	0x138
+	.byte	0
+	.uleb128 0x1c
+	.long	0x9b7
+	.uleb128 0x9
+	.long	0x9ab
+	.long	0xbcd
+	.uleb128 0x1
+	.long	0x54b
+	.uleb128 0x1
+	.long	0x9ab
+	.byte	0
+	.uleb128 0x7
+	.long	0xbb9
+	.uleb128 0x9
+	.long	0x9ab
+	.long	0xbe1
+	.uleb128 0x1
+	.long	0x54b
+	.byte	0
+	.uleb128 0x7
+	.long	0xbd2
+	.uleb128 0x9
+	.long	0x9ab
+	.long	0xbf6
+	.uleb128 0x1
+	.long	0x2e
+	.uleb128 0x15
+	.byte	0
+	.uleb128 0x7
+	.long	0xbe6
+	.uleb128 0x9
+	.long	0x9ab
+	.long	0xc0a
+	.uleb128 0x1
+	.long	0x47d
+	.byte	0
+	.uleb128 0x7
+	.long	0xbfb
+	.uleb128 0x9
+	.long	0x9ab
+	.long	0xc1f
+	.uleb128 0x1
+	.long	0x54b
+	.uleb128 0x15
+	.byte	0
+	.uleb128 0x7
+	.long	0xc0f
+	.uleb128 0x9
+	.long	0x2ee
+	.long	0xc3d
+	.uleb128 0x1
+	.long	0x9ab
+	.uleb128 0x1
+	.long	0x9ab
+	.uleb128 0x1
+	.long	0xc3d
+	.byte	0
+	.uleb128 0x7
+	.long	0xc42
+	.uleb128 0x9
+	.long	0x2ee
+	.long	0xc56
+	.uleb128 0x1
+	.long	0x54b
+	.uleb128 0x1
+	.long	0x54b
+	.byte	0
+	.uleb128 0x7
+	.long	0xc24
+	.uleb128 0x9
+	.long	0x54b
+	.long	0xc79
+	.uleb128 0x1
+	.long	0x9ab
+	.uleb128 0x1
+	.long	0x54b
+	.uleb128 0x1
+	.long	0xc3d
+	.uleb128 0x1
+	.long	0x482
+	.byte	0
+	.uleb128 0x7
+	.long	0xc5b
+	.uleb128 0x9
+	.long	0x9ab
+	.long	0xc8d
+	.uleb128 0x1
+	.long	0x9ab
+	.byte	0
+	.uleb128 0x7
+	.long	0xc7e
+	.uleb128 0x12
+	.long	0xc9d
+	.uleb128 0x1
+	.long	0x9ab
+	.byte	0
+	.uleb128 0x7
+	.long	0xc92
+	.uleb128 0x9
+	.long	0x9ab
+	.long	0xcb6
+	.uleb128 0x1
+	.long	0x9ab
+	.uleb128 0x1
+	.long	0x9ab
+	.byte	0
+	.uleb128 0x7
+	.long	0xca2
+	.uleb128 0x12
+	.long	0xccb
+	.uleb128 0x1
+	.long	0x9ab
+	.uleb128 0x1
+	.long	0xccb
+	.byte	0
+	.uleb128 0x7
+	.long	0xcd0
+	.uleb128 0x12
+	.long	0xcdb
+	.uleb128 0x1
+	.long	0x54b
+	.byte	0
+	.uleb128 0x7
+	.long	0xcbb
+	.uleb128 0x9
+	.long	0x9ab
+	.long	0xcf9
+	.uleb128 0x1
+	.long	0x9ab
+	.uleb128 0x1
+	.long	0x9ab
+	.uleb128 0x1
+	.long	0xccb
+	.byte	0
+	.uleb128 0x7
+	.long	0xce0
+	.uleb128 0x9
+	.long	0x9ab
+	.long	0xd17
+	.uleb128 0x1
+	.long	0x9ab
+	.uleb128 0x1
+	.long	0xccb
+	.uleb128 0x1
+	.long	0xd17
+	.byte	0
+	.uleb128 0x7
+	.long	0xd1c
+	.uleb128 0x9
+	.long	0x2ee
+	.long	0xd2b
+	.uleb128 0x1
+	.long	0x54b
+	.byte	0
+	.uleb128 0x7
+	.long	0xcfe
+	.uleb128 0x9
+	.long	0x54b
+	.long	0xd44
+	.uleb128 0x1
+	.long	0x9ab
+	.uleb128 0x1
+	.long	0x2fb
+	.byte	0
+	.uleb128 0x7
+	.long	0xd30
+	.uleb128 0x9
+	.long	0x9ab
+	.long	0xd5d
+	.uleb128 0x1
+	.long	0x9ab
+	.uleb128 0x1
+	.long	0x2fb
+	.byte	0
+	.uleb128 0x7
+	.long	0xd49
+	.uleb128 0x9
+	.long	0x2fb
+	.long	0xd71
+	.uleb128 0x1
+	.long	0x9ab
+	.byte	0
+	.uleb128 0x7
+	.long	0xd62
+	.uleb128 0x9
+	.long	0x2ee
+	.long	0xd8a
+	.uleb128 0x1
+	.long	0x9ab
+	.uleb128 0x1
+	.long	0x2fb
+	.byte	0
+	.uleb128 0x7
+	.long	0xd76
+	.uleb128 0x9
+	.long	0x9ab
+	.long	0xda3
+	.uleb128 0x1
+	.long	0x9ab
+	.uleb128 0x1
+	.long	0xda3
+	.byte	0
+	.uleb128 0x7
+	.long	0xda8
+	.uleb128 0x9
+	.long	0x54b
+	.long	0xdb7
+	.uleb128 0x1
+	.long	0x54b
+	.byte	0
+	.uleb128 0x7
+	.long	0xd8f
+	.uleb128 0x9
+	.long	0x9ab
+	.long	0xdd5
+	.uleb128 0x1
+	.long	0x9ab
+	.uleb128 0x1
+	.long	0x9ab
+	.uleb128 0x1
+	.long	0xda3
+	.byte	0
+	.uleb128 0x7
+	.long	0xdbc
+	.uleb128 0x9
+	.long	0x9ab
+	.long	0xdee
+	.uleb128 0x1
+	.long	0xda3
+	.uleb128 0x1
+	.long	0x9ab
+	.byte	0
+	.uleb128 0x7
+	.long	0xdda
+	.uleb128 0x9
+	.long	0x2ee
+	.long	0xe07
+	.uleb128 0x1
+	.long	0x9ab
+	.uleb128 0x1
+	.long	0x54b
+	.byte	0
+	.uleb128 0x7
+	.long	0xdf3
+	.uleb128 0x9
+	.long	0x2ee
+	.long	0xe25
+	.uleb128 0x1
+	.long	0x9ab
+	.uleb128 0x1
+	.long	0x54b
+	.uleb128 0x1
+	.long	0xc3d
+	.byte	0
+	.uleb128 0x7
+	.long	0xe0c
+	.uleb128 0x9
+	.long	0x2ee
+	.long	0xe3e
+	.uleb128 0x1
+	.long	0x9ab
+	.uleb128 0x1
+	.long	0x9ab
+	.byte	0
+	.uleb128 0x7
+	.long	0xe2a
+	.uleb128 0x9
+	.long	0x2e
+	.long	0xe57
+	.uleb128 0x1
+	.long	0x9ab
+	.uleb128 0x1
+	.long	0x54b
+	.byte	0
+	.uleb128 0x7
+	.long	0xe43
+	.uleb128 0x9
+	.long	0x2e
+	.long	0xe75
+	.uleb128 0x1
+	.long	0x9ab
+	.uleb128 0x1
+	.long	0x54b
+	.uleb128 0x1
+	.long	0xc3d
+	.byte	0
+	.uleb128 0x7
+	.long	0xe5c
+	.uleb128 0x9
+	.long	0x9ab
+	.long	0xe93
+	.uleb128 0x1
+	.long	0x9ab
+	.uleb128 0x1
+	.long	0x54b
+	.uleb128 0x1
+	.long	0xc3d
+	.byte	0
+	.uleb128 0x7
+	.long	0xe7a
+	.uleb128 0x12
+	.long	0xea8
+	.uleb128 0x1
+	.long	0xea8
+	.uleb128 0x1
+	.long	0x9ab
+	.byte	0
+	.uleb128 0x7
+	.long	0x54b
+	.uleb128 0x7
+	.long	0xe98
+	.uleb128 0x9
+	.long	0x2e
+	.long	0xecb
+	.uleb128 0x1
+	.long	0x2c3
+	.uleb128 0x1
+	.long	0x9ab
+	.uleb128 0x1
+	.long	0xecb
+	.byte	0
+	.uleb128 0x7
+	.long	0xed0
+	.uleb128 0x9
+	.long	0x2e
+	.long	0xee4
+	.uleb128 0x1
+	.long	0x2c3
+	.uleb128 0x1
+	.long	0x54b
+	.byte	0
+	.uleb128 0x7
+	.long	0xeb2
+	.uleb128 0x9
+	.long	0x2e
+	.long	0xf11
+	.uleb128 0x1
+	.long	0x2c3
+	.uleb128 0x1
+	.long	0x9ab
+	.uleb128 0x1
+	.long	0xecb
+	.uleb128 0x1
+	.long	0x80
+	.uleb128 0x1
+	.long	0x80
+	.uleb128 0x1
+	.long	0x80
+	.byte	0
+	.uleb128 0x7
+	.long	0xee9
+	.uleb128 0x9
+	.long	0x2e
+	.long	0xf2f
+	.uleb128 0x1
+	.long	0x377
+	.uleb128 0x1
+	.long	0x322
+	.uleb128 0x1
+	.long	0x9ab
+	.byte	0
+	.uleb128 0x7
+	.long	0xf16
+	.uleb128 0x31
+	.long	.LASF372
+	.byte	0xc
+	.byte	0x4f
+	.value	0x7cf
+	.long	0xf41
+	.uleb128 0x7
+	.long	0xbb4
+	.uleb128 0xf
+	.long	.LASF215
+	.byte	0x10
+	.byte	0xc
+	.byte	0x57
+	.byte	0x10
+	.long	0xf6e
+	.uleb128 0x8
+	.long	.LASF172
+	.byte	0xc
+	.byte	0x57
+	.byte	0x24
+	.long	0x8d7
+	.byte	0
+	.uleb128 0x8
+	.long	.LASF80
+	.byte	0xc
+	.byte	0x57
+	.byte	0x40
+	.long	0xf6e
+	.byte	0x8
+	.byte	0
+	.uleb128 0x7
+	.long	0xf46
+	.uleb128 0xb
+	.long	.LASF216
+	.byte	0xc
+	.byte	0x57
+	.byte	0x49
+	.long	0xf6e
+	.uleb128 0x7
+	.long	0x32f
+	.uleb128 0x32
+	.long	.LASF373
+	.byte	0x7
+	.byte	0x4
+	.long	0x43
+	.byte	0xe
+	.byte	0x16
+	.byte	0x6
+	.long	0x1183
+	.uleb128 0x4
+	.long	.LASF217
+	.byte	0
+	.uleb128 0x4
+	.long	.LASF218
+	.byte	0
+	.uleb128 0x4
+	.long	.LASF219
+	.byte	0
+	.uleb128 0x4
+	.long	.LASF220
+	.byte	0x1
+	.uleb128 0x4
+	.long	.LASF221
+	.byte	0x2
+	.uleb128 0x4
+	.long	.LASF222
+	.byte	0x3
+	.uleb128 0x4
+	.long	.LASF223
+	.byte	0x3
+	.uleb128 0x4
+	.long	.LASF224
+	.byte	0x3
+	.uleb128 0x4
+	.long	.LASF225
+	.byte	0x4
+	.uleb128 0x4
+	.long	.LASF226
+	.byte	0x4
+	.uleb128 0x4
+	.long	.LASF227
+	.byte	0x4
+	.uleb128 0x4
+	.long	.LASF228
+	.byte	0x5
+	.uleb128 0x4
+	.long	.LASF229
+	.byte	0x6
+	.uleb128 0x4
+	.long	.LASF230
+	.byte	0x7
+	.uleb128 0x4
+	.long	.LASF231
+	.byte	0x7
+	.uleb128 0x4
+	.long	.LASF232
+	.byte	0x7
+	.uleb128 0x4
+	.long	.LASF233
+	.byte	0x8
+	.uleb128 0x4
+	.long	.LASF234
+	.byte	0x9
+	.uleb128 0x4
+	.long	.LASF235
+	.byte	0xa
+	.uleb128 0x4
+	.long	.LASF236
+	.byte	0xb
+	.uleb128 0x4
+	.long	.LASF237
+	.byte	0xc
+	.uleb128 0x4
+	.long	.LASF238
+	.byte	0xd
+	.uleb128 0x4
+	.long	.LASF239
+	.byte	0xe
+	.uleb128 0x4
+	.long	.LASF240
+	.byte	0xf
+	.uleb128 0x4
+	.long	.LASF241
+	.byte	0x10
+	.uleb128 0x4
+	.long	.LASF242
+	.byte	0x11
+	.uleb128 0x4
+	.long	.LASF243
+	.byte	0x12
+	.uleb128 0x4
+	.long	.LASF244
+	.byte	0x13
+	.uleb128 0x4
+	.long	.LASF245
+	.byte	0x14
+	.uleb128 0x4
+	.long	.LASF246
+	.byte	0x15
+	.uleb128 0x4
+	.long	.LASF247
+	.byte	0x16
+	.uleb128 0x4
+	.long	.LASF248
+	.byte	0x17
+	.uleb128 0x4
+	.long	.LASF249
+	.byte	0x18
+	.uleb128 0x4
+	.long	.LASF250
+	.byte	0x19
+	.uleb128 0x4
+	.long	.LASF251
+	.byte	0x1a
+	.uleb128 0x4
+	.long	.LASF252
+	.byte	0x1b
+	.uleb128 0x4
+	.long	.LASF253
+	.byte	0x1c
+	.uleb128 0x4
+	.long	.LASF254
+	.byte	0x1d
+	.uleb128 0x4
+	.long	.LASF255
+	.byte	0x1e
+	.uleb128 0x4
+	.long	.LASF256
+	.byte	0x1f
+	.uleb128 0x4
+	.long	.LASF257
+	.byte	0x20
+	.uleb128 0x4
+	.long	.LASF258
+	.byte	0x21
+	.uleb128 0x4
+	.long	.LASF259
+	.byte	0x22
+	.uleb128 0x4
+	.long	.LASF260
+	.byte	0x23
+	.uleb128 0x4
+	.long	.LASF261
+	.byte	0x24
+	.uleb128 0x4
+	.long	.LASF262
+	.byte	0x25
+	.uleb128 0x4
+	.long	.LASF263
+	.byte	0x26
+	.uleb128 0x4
+	.long	.LASF264
+	.byte	0x27
+	.uleb128 0x4
+	.long	.LASF265
+	.byte	0x28
+	.uleb128 0x4
+	.long	.LASF266
+	.byte	0x29
+	.uleb128 0x4
+	.long	.LASF267
+	.byte	0x2a
+	.uleb128 0x4
+	.long	.LASF268
+	.byte	0x2b
+	.uleb128 0x4
+	.long	.LASF269
+	.byte	0x2c
+	.uleb128 0x4
+	.long	.LASF270
+	.byte	0x2d
+	.uleb128 0x4
+	.long	.LASF271
+	.byte	0x2e
+	.uleb128 0x4
+	.long	.LASF272
+	.byte	0x2f
+	.uleb128 0x4
+	.long	.LASF273
+	.byte	0x30
+	.uleb128 0x4
+	.long	.LASF274
+	.byte	0x31
+	.uleb128 0x4
+	.long	.LASF275
+	.byte	0x32
+	.uleb128 0x4
+	.long	.LASF276
+	.byte	0x33
+	.uleb128 0x4
+	.long	.LASF277
+	.byte	0x34
+	.uleb128 0x4
+	.long	.LASF278
+	.byte	0x35
+	.uleb128 0x4
+	.long	.LASF279
+	.byte	0x36
+	.uleb128 0x4
+	.long	.LASF280
+	.byte	0x37
+	.uleb128 0x4
+	.long	.LASF281
+	.byte	0x38
+	.uleb128 0x4
+	.long	.LASF282
+	.byte	0x39
+	.uleb128 0x4
+	.long	.LASF283
+	.byte	0x3a
+	.uleb128 0x4
+	.long	.LASF284
+	.byte	0x3b
+	.uleb128 0x4
+	.long	.LASF285
+	.byte	0x3c
+	.uleb128 0x4
+	.long	.LASF286
+	.byte	0x3d
+	.uleb128 0x4
+	.long	.LASF287
+	.byte	0x3e
+	.uleb128 0x4
+	.long	.LASF288
+	.byte	0x3f
+	.uleb128 0x4
+	.long	.LASF289
+	.byte	0x40
+	.uleb128 0x4
+	.long	.LASF290
+	.byte	0x41
+	.uleb128 0x4
+	.long	.LASF291
+	.byte	0x42
+	.uleb128 0x4
+	.long	.LASF292
+	.byte	0x43
+	.uleb128 0x4
+	.long	.LASF293
+	.byte	0x44
+	.uleb128 0x4
+	.long	.LASF294
+	.byte	0x45
+	.uleb128 0x4
+	.long	.LASF295
+	.byte	0x46
+	.uleb128 0x4
+	.long	.LASF296
+	.byte	0x47
+	.uleb128 0x4
+	.long	.LASF297
+	.byte	0x48
+	.uleb128 0x4
+	.long	.LASF298
+	.byte	0x48
+	.byte	0
+	.uleb128 0xe
+	.long	.LASF299
+	.byte	0xe
+	.value	0x100
+	.byte	0xf
+	.long	0x2e1
+	.uleb128 0x6
+	.long	.LASF300
+	.byte	0x48
+	.value	0x11e
+	.long	0x1212
+	.uleb128 0x2
+	.long	.LASF301
+	.value	0x11f
+	.byte	0x6
+	.long	0x535
+	.byte	0
+	.uleb128 0x2
+	.long	.LASF302
+	.value	0x120
+	.byte	0x7
+	.long	0x92f
+	.byte	0x8
+	.uleb128 0x2
+	.long	.LASF303
+	.value	0x121
+	.byte	0x6
+	.long	0x2e
+	.byte	0x10
+	.uleb128 0x2
+	.long	.LASF163
+	.value	0x122
+	.byte	0x7
+	.long	0x8d7
+	.byte	0x18
+	.uleb128 0x2
+	.long	.LASF165
+	.value	0x123
+	.byte	0x8
+	.long	0x8ed
+	.byte	0x20
+	.uleb128 0x2
+	.long	.LASF304
+	.value	0x124
+	.byte	0x8
+	.long	0x54b
+	.byte	0x28
+	.uleb128 0x2
+	.long	.LASF305
+	.value	0x125
+	.byte	0xa
+	.long	0x1183
+	.byte	0x30
+	.uleb128 0x2
+	.long	.LASF306
+	.value	0x126
+	.byte	0x8
+	.long	0x968
+	.byte	0x38
+	.uleb128 0x2
+	.long	.LASF307
+	.value	0x127
+	.byte	0xb
+	.long	0xf73
+	.byte	0x40
+	.byte	0
+	.uleb128 0xe
+	.long	.LASF308
+	.byte	0xe
+	.value	0x12a
+	.byte	0x19
+	.long	0x121f
+	.uleb128 0x7
+	.long	0x1190
+	.uleb128 0x21
+	.byte	0x8
+	.value	0x13a
+	.long	0x1245
+	.uleb128 0x5
+	.long	.LASF309
+	.value	0x13b
+	.byte	0x9
+	.long	0x903
+	.uleb128 0x5
+	.long	.LASF310
+	.value	0x13c
+	.byte	0x9
+	.long	0x8ed
+	.byte	0
+	.uleb128 0x6
+	.long	.LASF89
+	.byte	0x28
+	.value	0x130
+	.long	0x12ad
+	.uleb128 0x3
+	.string	"tag"
+	.value	0x131
+	.byte	0x8
+	.long	0x2d4
+	.byte	0
+	.uleb128 0x3
+	.string	"use"
+	.value	0x132
+	.byte	0x8
+	.long	0x2d4
+	.byte	0x1
+	.uleb128 0x2
+	.long	.LASF311
+	.value	0x133
+	.byte	0x8
+	.long	0x2d4
+	.byte	0x2
+	.uleb128 0x2
+	.long	.LASF312
+	.value	0x135
+	.byte	0x9
+	.long	0x2fb
+	.byte	0x8
+	.uleb128 0x3
+	.string	"pos"
+	.value	0x136
+	.byte	0xe
+	.long	0x4cc
+	.byte	0x10
+	.uleb128 0x2
+	.long	.LASF313
+	.value	0x138
+	.byte	0xa
+	.long	0x1212
+	.byte	0x18
+	.uleb128 0x2
+	.long	.LASF314
+	.value	0x13d
+	.byte	0x4
+	.long	0x1224
+	.byte	0x20
+	.byte	0
+	.uleb128 0x21
+	.byte	0x50
+	.value	0x142
+	.long	0x12e6
+	.uleb128 0x1a
+	.string	"sym"
+	.value	0x143
+	.byte	0xa
+	.long	0x4fc
+	.uleb128 0x1a
+	.string	"doc"
+	.value	0x144
+	.byte	0x7
+	.long	0x535
+	.uleb128 0x1a
+	.string	"str"
+	.value	0x145
+	.byte	0xa
+	.long	0x315
+	.uleb128 0x5
+	.long	.LASF315
+	.value	0x146
+	.byte	0x9
+	.long	0x12e6
+	.byte	0
+	.uleb128 0x18
+	.long	0x54b
+	.long	0x12f6
+	.uleb128 0x19
+	.long	0x4a
+	.byte	0x9
+	.byte	0
+	.uleb128 0x6
+	.long	.LASF90
+	.byte	0x78
+	.value	0x140
+	.long	0x131d
+	.uleb128 0x3
+	.string	"hdr"
+	.value	0x141
+	.byte	0xf
+	.long	0x1245
+	.byte	0
+	.uleb128 0x2
+	.long	.LASF67
+	.value	0x147
+	.byte	0x4
+	.long	0x12ad
+	.byte	0x28
+	.byte	0
+	.uleb128 0x6
+	.long	.LASF91
+	.byte	0x30
+	.value	0x14e
+	.long	0x1344
+	.uleb128 0x3
+	.string	"hdr"
+	.value	0x14f
+	.byte	0xf
+	.long	0x1245
+	.byte	0
+	.uleb128 0x3
+	.string	"sym"
+	.value	0x150
+	.byte	0x9
+	.long	0x4fc
+	.byte	0x28
+	.byte	0
+	.uleb128 0x6
+	.long	.LASF92
+	.byte	0x30
+	.value	0x153
+	.long	0x136b
+	.uleb128 0x3
+	.string	"hdr"
+	.value	0x154
+	.byte	0xf
+	.long	0x1245
+	.byte	0
+	.uleb128 0x3
+	.string	"sym"
+	.value	0x155
+	.byte	0x9
+	.long	0x4fc
+	.byte	0x28
+	.byte	0
+	.uleb128 0x6
+	.long	.LASF93
+	.byte	0x30
+	.value	0x158
+	.long	0x1392
+	.uleb128 0x3
+	.string	"hdr"
+	.value	0x159
+	.byte	0xf
+	.long	0x1245
+	.byte	0
+	.uleb128 0x3
+	.string	"sym"
+	.value	0x15a
+	.byte	0x9
+	.long	0x4fc
+	.byte	0x28
+	.byte	0
+	.uleb128 0x6
+	.long	.LASF94
+	.byte	0x30
+	.value	0x15d
+	.long	0x13b9
+	.uleb128 0x3
+	.string	"hdr"
+	.value	0x15e
+	.byte	0xf
+	.long	0x1245
+	.byte	0
+	.uleb128 0x3
+	.string	"doc"
+	.value	0x15f
+	.byte	0x6
+	.long	0x535
+	.byte	0x28
+	.byte	0
+	.uleb128 0x6
+	.long	.LASF95
+	.byte	0x30
+	.value	0x162
+	.long	0x13e0
+	.uleb128 0x3
+	.string	"hdr"
+	.value	0x163
+	.byte	0xf
+	.long	0x1245
+	.byte	0
+	.uleb128 0x3
+	.string	"str"
+	.value	0x164
+	.byte	0x9
+	.long	0x315
+	.byte	0x28
+	.byte	0
+	.uleb128 0x6
+	.long	.LASF97
+	.byte	0x30
+	.value	0x167
+	.long	0x1407
+	.uleb128 0x3
+	.string	"hdr"
+	.value	0x168
+	.byte	0xf
+	.long	0x1245
+	.byte	0
+	.uleb128 0x3
+	.string	"str"
+	.value	0x169
+	.byte	0x9
+	.long	0x315
+	.byte	0x28
+	.byte	0
+	.uleb128 0x6
+	.long	.LASF96
+	.byte	0x30
+	.value	0x16c
+	.long	0x142e
+	.uleb128 0x3
+	.string	"hdr"
+	.value	0x16d
+	.byte	0xf
+	.long	0x1245
+	.byte	0
+	.uleb128 0x3
+	.string	"str"
+	.value	0x16e
+	.byte	0x9
+	.long	0x315
+	.byte	0x28
+	.byte	0
+	.uleb128 0x6
+	.long	.LASF98
+	.byte	0x38
+	.value	0x175
+	.long	0x1462
+	.uleb128 0x3
+	.string	"hdr"
+	.value	0x176
+	.byte	0xf
+	.long	0x1245
+	.byte	0
+	.uleb128 0x2
+	.long	.LASF316
+	.value	0x177
+	.byte	0x8
+	.long	0x54b
+	.byte	0x28
+	.uleb128 0x2
+	.long	.LASF317
+	.value	0x178
+	.byte	0x8
+	.long	0x54b
+	.byte	0x30
+	.byte	0
+	.uleb128 0x6
+	.long	.LASF99
+	.byte	0x78
+	.value	0x17b
+	.long	0x1489
+	.uleb128 0x3
+	.string	"hdr"
+	.value	0x17c
+	.byte	0xf
+	.long	0x1245
+	.byte	0
+	.uleb128 0x2
+	.long	.LASF315
+	.value	0x17d
+	.byte	0x8
+	.long	0x12e6
+	.byte	0x28
+	.byte	0
+	.uleb128 0x6
+	.long	.LASF100
+	.byte	0x80
+	.value	0x180
+	.long	0x14bc
+	.uleb128 0x3
+	.string	"hdr"
+	.value	0x181
+	.byte	0xf
+	.long	0x1245
+	.byte	0
+	.uleb128 0x3
+	.string	"op"
+	.value	0x182
+	.byte	0x8
+	.long	0x54b
+	.byte	0x28
+	.uleb128 0x2
+	.long	.LASF315
+	.value	0x183
+	.byte	0x8
+	.long	0x12e6
+	.byte	0x30
+	.byte	0
+	.uleb128 0x6
+	.long	.LASF101
+	.byte	0x30
+	.value	0x186
+	.long	0x14e3
+	.uleb128 0x3
+	.string	"hdr"
+	.value	0x187
+	.byte	0xf
+	.long	0x1245
+	.byte	0
+	.uleb128 0x2
+	.long	.LASF318
+	.value	0x188
+	.byte	0x8
+	.long	0x54b
+	.byte	0x28
+	.byte	0
+	.uleb128 0x6
+	.long	.LASF102
+	.byte	0x38
+	.value	0x18b
+	.long	0x1517
+	.uleb128 0x3
+	.string	"hdr"
+	.value	0x18c
+	.byte	0xf
+	.long	0x1245
+	.byte	0
+	.uleb128 0x3
+	.string	"lhs"
+	.value	0x18d
+	.byte	0x8
+	.long	0x54b
+	.byte	0x28
+	.uleb128 0x3
+	.string	"rhs"
+	.value	0x18e
+	.byte	0x8
+	.long	0x54b
+	.byte	0x30
+	.byte	0
+	.uleb128 0x6
+	.long	.LASF103
+	.byte	0x30
+	.value	0x191
+	.long	0x153e
+	.uleb128 0x3
+	.string	"hdr"
+	.value	0x192
+	.byte	0xf
+	.long	0x1245
+	.byte	0
+	.uleb128 0x2
+	.long	.LASF319
+	.value	0x193
+	.byte	0x8
+	.long	0x54b
+	.byte	0x28
+	.byte	0
+	.uleb128 0x6
+	.long	.LASF104
+	.byte	0x30
+	.value	0x196
+	.long	0x1565
+	.uleb128 0x3
+	.string	"hdr"
+	.value	0x197
+	.byte	0xf
+	.long	0x1245
+	.byte	0
+	.uleb128 0x2
+	.long	.LASF320
+	.value	0x198
+	.byte	0x8
+	.long	0x54b
+	.byte	0x28
+	.byte	0
+	.uleb128 0x6
+	.long	.LASF105
+	.byte	0x38
+	.value	0x19b
+	.long	0x1598
+	.uleb128 0x3
+	.string	"hdr"
+	.value	0x19c
+	.byte	0xf
+	.long	0x1245
+	.byte	0
+	.uleb128 0x3
+	.string	"id"
+	.value	0x19d
+	.byte	0x8
+	.long	0x54b
+	.byte	0x28
+	.uleb128 0x2
+	.long	.LASF314
+	.value	0x19e
+	.byte	0x8
+	.long	0x54b
+	.byte	0x30
+	.byte	0
+	.uleb128 0x6
+	.long	.LASF112
+	.byte	0x30
+	.value	0x1a1
+	.long	0x15bf
+	.uleb128 0x3
+	.string	"hdr"
+	.value	0x1a2
+	.byte	0xf
+	.long	0x1245
+	.byte	0
+	.uleb128 0x2
+	.long	.LASF321
+	.value	0x1a3
+	.byte	0x8
+	.long	0x54b
+	.byte	0x28
+	.byte	0
+	.uleb128 0x6
+	.long	.LASF113
+	.byte	0x38
+	.value	0x1a6
+	.long	0x15f3
+	.uleb128 0x3
+	.string	"hdr"
+	.value	0x1a7
+	.byte	0xf
+	.long	0x1245
+	.byte	0
+	.uleb128 0x2
+	.long	.LASF321
+	.value	0x1a8
+	.byte	0x8
+	.long	0x54b
+	.byte	0x28
+	.uleb128 0x3
+	.string	"doc"
+	.value	0x1a9
+	.byte	0x8
+	.long	0x54b
+	.byte	0x30
+	.byte	0
+	.uleb128 0x6
+	.long	.LASF106
+	.byte	0x38
+	.value	0x1ac
+	.long	0x1627
+	.uleb128 0x3
+	.string	"hdr"
+	.value	0x1ad
+	.byte	0xf
+	.long	0x1245
+	.byte	0
+	.uleb128 0x2
+	.long	.LASF321
+	.value	0x1ae
+	.byte	0x8
+	.long	0x54b
+	.byte	0x28
+	.uleb128 0x2
+	.long	.LASF314
+	.value	0x1af
+	.byte	0x8
+	.long	0x54b
+	.byte	0x30
+	.byte	0
+	.uleb128 0x6
+	.long	.LASF107
+	.byte	0x80
+	.value	0x1b2
+	.long	0x165b
+	.uleb128 0x3
+	.string	"hdr"
+	.value	0x1b3
+	.byte	0xf
+	.long	0x1245
+	.byte	0
+	.uleb128 0x2
+	.long	.LASF322
+	.value	0x1b4
+	.byte	0x8
+	.long	0x54b
+	.byte	0x28
+	.uleb128 0x2
+	.long	.LASF323
+	.value	0x1b5
+	.byte	0x8
+	.long	0x12e6
+	.byte	0x30
+	.byte	0
+	.uleb128 0x6
+	.long	.LASF108
+	.byte	0x78
+	.value	0x1b8
+	.long	0x1682
+	.uleb128 0x3
+	.string	"hdr"
+	.value	0x1b9
+	.byte	0xf
+	.long	0x1245
+	.byte	0
+	.uleb128 0x2
+	.long	.LASF315
+	.value	0x1ba
+	.byte	0x8
+	.long	0x12e6
+	.byte	0x28
+	.byte	0
+	.uleb128 0x6
+	.long	.LASF109
+	.byte	0x30
+	.value	0x1bd
+	.long	0x16a9
+	.uleb128 0x3
+	.string	"hdr"
+	.value	0x1be
+	.byte	0xf
+	.long	0x1245
+	.byte	0
+	.uleb128 0x2
+	.long	.LASF322
+	.value	0x1bf
+	.byte	0x8
+	.long	0x54b
+	.byte	0x28
+	.byte	0
+	.uleb128 0x6
+	.long	.LASF110
+	.byte	0x38
+	.value	0x1c2
+	.long	0x16dd
+	.uleb128 0x3
+	.string	"hdr"
+	.value	0x1c3
+	.byte	0xf
+	.long	0x1245
+	.byte	0
+	.uleb128 0x3
+	.string	"lhs"
+	.value	0x1c4
+	.byte	0x8
+	.long	0x54b
+	.byte	0x28
+	.uleb128 0x3
+	.string	"rhs"
+	.value	0x1c5
+	.byte	0x8
+	.long	0x54b
+	.byte	0x30
+	.byte	0
+	.uleb128 0x6
+	.long	.LASF111
+	.byte	0x30
+	.value	0x1c8
+	.long	0x1704
+	.uleb128 0x3
+	.string	"hdr"
+	.value	0x1c9
+	.byte	0xf
+	.long	0x1245
+	.byte	0
+	.uleb128 0x2
+	.long	.LASF322
+	.value	0x1ca
+	.byte	0x8
+	.long	0x54b
+	.byte	0x28
+	.byte	0
+	.uleb128 0x6
+	.long	.LASF114
+	.byte	0x38
+	.value	0x1cd
+	.long	0x1738
+	.uleb128 0x3
+	.string	"hdr"
+	.value	0x1ce
+	.byte	0xf
+	.long	0x1245
+	.byte	0
+	.uleb128 0x2
+	.long	.LASF314
+	.value	0x1cf
+	.byte	0x8
+	.long	0x54b
+	.byte	0x28
+	.uleb128 0x2
+	.long	.LASF324
+	.value	0x1d0
+	.byte	0x8
+	.long	0x54b
+	.byte	0x30
+	.byte	0
+	.uleb128 0x6
+	.long	.LASF115
+	.byte	0x38
+	.value	0x1d3
+	.long	0x176c
+	.uleb128 0x3
+	.string	"hdr"
+	.value	0x1d4
+	.byte	0xf
+	.long	0x1245
+	.byte	0
+	.uleb128 0x2
+	.long	.LASF318
+	.value	0x1d5
+	.byte	0x8
+	.long	0x54b
+	.byte	0x28
+	.uleb128 0x2
+	.long	.LASF325
+	.value	0x1d6
+	.byte	0x8
+	.long	0x54b
+	.byte	0x30
+	.byte	0
+	.uleb128 0x6
+	.long	.LASF116
+	.byte	0x40
+	.value	0x1d9
+	.long	0x17ad
+	.uleb128 0x3
+	.string	"hdr"
+	.value	0x1da
+	.byte	0xf
+	.long	0x1245
+	.byte	0
+	.uleb128 0x2
+	.long	.LASF320
+	.value	0x1db
+	.byte	0x8
+	.long	0x54b
+	.byte	0x28
+	.uleb128 0x2
+	.long	.LASF326
+	.value	0x1dc
+	.byte	0x8
+	.long	0x54b
+	.byte	0x30
+	.uleb128 0x2
+	.long	.LASF327
+	.value	0x1dd
+	.byte	0x8
+	.long	0x54b
+	.byte	0x38
+	.byte	0
+	.uleb128 0x6
+	.long	.LASF117
+	.byte	0x30
+	.value	0x1e0
+	.long	0x17d4
+	.uleb128 0x3
+	.string	"hdr"
+	.value	0x1e1
+	.byte	0xf
+	.long	0x1245
+	.byte	0
+	.uleb128 0x2
+	.long	.LASF322
+	.value	0x1e2
+	.byte	0x8
+	.long	0x54b
+	.byte	0x28
+	.byte	0
+	.uleb128 0x6
+	.long	.LASF118
+	.byte	0x30
+	.value	0x1e5
+	.long	0x17fb
+	.uleb128 0x3
+	.string	"hdr"
+	.value	0x1e6
+	.byte	0xf
+	.long	0x1245
+	.byte	0
+	.uleb128 0x2
+	.long	.LASF328
+	.value	0x1e7
+	.byte	0x8
+	.long	0x54b
+	.byte	0x28
+	.byte	0
+	.uleb128 0x6
+	.long	.LASF119
+	.byte	0x78
+	.value	0x1ea
+	.long	0x1822
+	.uleb128 0x3
+	.string	"hdr"
+	.value	0x1eb
+	.byte	0xf
+	.long	0x1245
+	.byte	0
+	.uleb128 0x2
+	.long	.LASF315
+	.value	0x1ec
+	.byte	0x8
+	.long	0x12e6
+	.byte	0x28
+	.byte	0
+	.uleb128 0x6
+	.long	.LASF120
+	.byte	0x40
+	.value	0x1ef
+	.long	0x1863
+	.uleb128 0x3
+	.string	"hdr"
+	.value	0x1f0
+	.byte	0xf
+	.long	0x1245
+	.byte	0
+	.uleb128 0x3
+	.string	"lhs"
+	.value	0x1f1
+	.byte	0x8
+	.long	0x54b
+	.byte	0x28
+	.uleb128 0x2
+	.long	.LASF329
+	.value	0x1f2
+	.byte	0x8
+	.long	0x54b
+	.byte	0x30
+	.uleb128 0x2
+	.long	.LASF318
+	.value	0x1f3
+	.byte	0x8
+	.long	0x54b
+	.byte	0x38
+	.byte	0
+	.uleb128 0x6
+	.long	.LASF121
+	.byte	0x38
+	.value	0x1f6
+	.long	0x1897
+	.uleb128 0x3
+	.string	"hdr"
+	.value	0x1f7
+	.byte	0xf
+	.long	0x1245
+	.byte	0
+	.uleb128 0x2
+	.long	.LASF320
+	.value	0x1f8
+	.byte	0x8
+	.long	0x54b
+	.byte	0x28
+	.uleb128 0x2
+	.long	.LASF326
+	.value	0x1f9
+	.byte	0x8
+	.long	0x54b
+	.byte	0x30
+	.byte	0
+	.uleb128 0x6
+	.long	.LASF122
+	.byte	0x38
+	.value	0x1fc
+	.long	0x18cb
+	.uleb128 0x3
+	.string	"hdr"
+	.value	0x1fd
+	.byte	0xf
+	.long	0x1245
+	.byte	0
+	.uleb128 0x2
+	.long	.LASF320
+	.value	0x1fe
+	.byte	0x8
+	.long	0x54b
+	.byte	0x28
+	.uleb128 0x2
+	.long	.LASF330
+	.value	0x1ff
+	.byte	0x8
+	.long	0x54b
+	.byte	0x30
+	.byte	0
+	.uleb128 0x6
+	.long	.LASF123
+	.byte	0x78
+	.value	0x202
+	.long	0x18f2
+	.uleb128 0x3
+	.string	"hdr"
+	.value	0x203
+	.byte	0xf
+	.long	0x1245
+	.byte	0
+	.uleb128 0x2
+	.long	.LASF315
+	.value	0x204
+	.byte	0x8
+	.long	0x12e6
+	.byte	0x28
+	.byte	0
+	.uleb128 0x6
+	.long	.LASF124
+	.byte	0x38
+	.value	0x207
+	.long	0x1926
+	.uleb128 0x3
+	.string	"hdr"
+	.value	0x208
+	.byte	0xf
+	.long	0x1245
+	.byte	0
+	.uleb128 0x2
+	.long	.LASF331
+	.value	0x209
+	.byte	0x8
+	.long	0x54b
+	.byte	0x28
+	.uleb128 0x2
+	.long	.LASF322
+	.value	0x20a
+	.byte	0x8
+	.long	0x54b
+	.byte	0x30
+	.byte	0
+	.uleb128 0x6
+	.long	.LASF125
+	.byte	0x30
+	.value	0x20d
+	.long	0x194d
+	.uleb128 0x3
+	.string	"hdr"
+	.value	0x20e
+	.byte	0xf
+	.long	0x1245
+	.byte	0
+	.uleb128 0x2
+	.long	.LASF319
+	.value	0x20f
+	.byte	0x8
+	.long	0x54b
+	.byte	0x28
+	.byte	0
+	.uleb128 0x6
+	.long	.LASF126
+	.byte	0x38
+	.value	0x212
+	.long	0x1981
+	.uleb128 0x3
+	.string	"hdr"
+	.value	0x213
+	.byte	0xf
+	.long	0x1245
+	.byte	0
+	.uleb128 0x2
+	.long	.LASF321
+	.value	0x214
+	.byte	0x8
+	.long	0x54b
+	.byte	0x28
+	.uleb128 0x2
+	.long	.LASF332
+	.value	0x215
+	.byte	0x8
+	.long	0x54b
+	.byte	0x30
+	.byte	0
+	.uleb128 0x6
+	.long	.LASF127
+	.byte	0x30
+	.value	0x218
+	.long	0x19a8
+	.uleb128 0x3
+	.string	"hdr"
+	.value	0x219
+	.byte	0xf
+	.long	0x1245
+	.byte	0
+	.uleb128 0x2
+	.long	.LASF314
+	.value	0x21a
+	.byte	0x8
+	.long	0x54b
+	.byte	0x28
+	.byte	0
+	.uleb128 0x6
+	.long	.LASF128
+	.byte	0x30
+	.value	0x21d
+	.long	0x19cf
+	.uleb128 0x3
+	.string	"hdr"
+	.value	0x21e
+	.byte	0xf
+	.long	0x1245
+	.byte	0
+	.uleb128 0x2
+	.long	.LASF321
+	.value	0x21f
+	.byte	0x8
+	.long	0x54b
+	.byte	0x28
+	.byte	0
+	.uleb128 0x6
+	.long	.LASF129
+	.byte	0x40
+	.value	0x222
+	.long	0x1a10
+	.uleb128 0x3
+	.string	"hdr"
+	.value	0x223
+	.byte	0xf
+	.long	0x1245
+	.byte	0
+	.uleb128 0x2
+	.long	.LASF318
+	.value	0x224
+	.byte	0x8
+	.long	0x54b
+	.byte	0x28
+	.uleb128 0x2
+	.long	.LASF333
+	.value	0x225
+	.byte	0x8
+	.long	0x54b
+	.byte	0x30
+	.uleb128 0x2
+	.long	.LASF334
+	.value	0x226
+	.byte	0x8
+	.long	0x54b
+	.byte	0x38
+	.byte	0
+	.uleb128 0x6
+	.long	.LASF130
+	.byte	0x38
+	.value	0x229
+	.long	0x1a44
+	.uleb128 0x3
+	.string	"hdr"
+	.value	0x22a
+	.byte	0xf
+	.long	0x1245
+	.byte	0
+	.uleb128 0x2
+	.long	.LASF320
+	.value	0x22b
+	.byte	0x8
+	.long	0x54b
+	.byte	0x28
+	.uleb128 0x2
+	.long	.LASF326
+	.value	0x22c
+	.byte	0x8
+	.long	0x54b
+	.byte	0x30
+	.byte	0
+	.uleb128 0x6
+	.long	.LASF131
+	.byte	0x38
+	.value	0x22f
+	.long	0x1a78
+	.uleb128 0x3
+	.string	"hdr"
+	.value	0x230
+	.byte	0xf
+	.long	0x1245
+	.byte	0
+	.uleb128 0x2
+	.long	.LASF320
+	.value	0x231
+	.byte	0x8
+	.long	0x54b
+	.byte	0x28
+	.uleb128 0x2
+	.long	.LASF326
+	.value	0x232
+	.byte	0x8
+	.long	0x54b
+	.byte	0x30
+	.byte	0
+	.uleb128 0x6
+	.long	.LASF132
+	.byte	0x30
+	.value	0x235
+	.long	0x1a9f
+	.uleb128 0x3
+	.string	"hdr"
+	.value	0x236
+	.byte	0xf
+	.long	0x1245
+	.byte	0
+	.uleb128 0x2
+	.long	.LASF319
+	.value	0x237
+	.byte	0x8
+	.long	0x54b
+	.byte	0x28
+	.byte	0
+	.uleb128 0x6
+	.long	.LASF133
+	.byte	0x38
+	.value	0x23a
+	.long	0x1ad3
+	.uleb128 0x3
+	.string	"hdr"
+	.value	0x23b
+	.byte	0xf
+	.long	0x1245
+	.byte	0
+	.uleb128 0x2
+	.long	.LASF319
+	.value	0x23c
+	.byte	0x8
+	.long	0x54b
+	.byte	0x28
+	.uleb128 0x2
+	.long	.LASF321
+	.value	0x23d
+	.byte	0x8
+	.long	0x54b
+	.byte	0x30
+	.byte	0
+	.uleb128 0x6
+	.long	.LASF134
+	.byte	0x40
+	.value	0x240
+	.long	0x1b14
+	.uleb128 0x3
+	.string	"hdr"
+	.value	0x241
+	.byte	0xf
+	.long	0x1245
+	.byte	0
+	.uleb128 0x2
+	.long	.LASF335
+	.value	0x242
+	.byte	0x8
+	.long	0x54b
+	.byte	0x28
+	.uleb128 0x2
+	.long	.LASF336
+	.value	0x243
+	.byte	0x8
+	.long	0x54b
+	.byte	0x30
+	.uleb128 0x2
+	.long	.LASF322
+	.value	0x244
+	.byte	0x8
+	.long	0x54b
+	.byte	0x38
+	.byte	0
+	.uleb128 0x6
+	.long	.LASF135
+	.byte	0x38
+	.value	0x247
+	.long	0x1b48
+	.uleb128 0x3
+	.string	"hdr"
+	.value	0x248
+	.byte	0xf
+	.long	0x1245
+	.byte	0
+	.uleb128 0x2
+	.long	.LASF337
+	.value	0x249
+	.byte	0x8
+	.long	0x54b
+	.byte	0x28
+	.uleb128 0x2
+	.long	.LASF321
+	.value	0x24a
+	.byte	0x8
+	.long	0x54b
+	.byte	0x30
+	.byte	0
+	.uleb128 0x6
+	.long	.LASF136
+	.byte	0x78
+	.value	0x24d
+	.long	0x1b6f
+	.uleb128 0x3
+	.string	"hdr"
+	.value	0x24e
+	.byte	0xf
+	.long	0x1245
+	.byte	0
+	.uleb128 0x2
+	.long	.LASF315
+	.value	0x24f
+	.byte	0x8
+	.long	0x12e6
+	.byte	0x28
+	.byte	0
+	.uleb128 0x6
+	.long	.LASF137
+	.byte	0x30
+	.value	0x252
+	.long	0x1b96
+	.uleb128 0x3
+	.string	"hdr"
+	.value	0x253
+	.byte	0xf
+	.long	0x1245
+	.byte	0
+	.uleb128 0x2
+	.long	.LASF321
+	.value	0x254
+	.byte	0x8
+	.long	0x54b
+	.byte	0x28
+	.byte	0
+	.uleb128 0x6
+	.long	.LASF138
+	.byte	0x38
+	.value	0x257
+	.long	0x1bca
+	.uleb128 0x3
+	.string	"hdr"
+	.value	0x258
+	.byte	0xf
+	.long	0x1245
+	.byte	0
+	.uleb128 0x3
+	.string	"lhs"
+	.value	0x259
+	.byte	0x8
+	.long	0x54b
+	.byte	0x28
+	.uleb128 0x3
+	.string	"rhs"
+	.value	0x25a
+	.byte	0x8
+	.long	0x54b
+	.byte	0x30
+	.byte	0
+	.uleb128 0x6
+	.long	.LASF139
+	.byte	0x38
+	.value	0x25d
+	.long	0x1bfe
+	.uleb128 0x3
+	.string	"hdr"
+	.value	0x25e
+	.byte	0xf
+	.long	0x1245
+	.byte	0
+	.uleb128 0x2
+	.long	.LASF335
+	.value	0x25f
+	.byte	0x8
+	.long	0x54b
+	.byte	0x28
+	.uleb128 0x2
+	.long	.LASF322
+	.value	0x260
+	.byte	0x8
+	.long	0x54b
+	.byte	0x30
+	.byte	0
+	.uleb128 0x6
+	.long	.LASF140
+	.byte	0x28
+	.value	0x263
+	.long	0x1c18
+	.uleb128 0x3
+	.string	"hdr"
+	.value	0x264
+	.byte	0xf
+	.long	0x1245
+	.byte	0
+	.byte	0
+	.uleb128 0x6
+	.long	.LASF141
+	.byte	0x30
+	.value	0x267
+	.long	0x1c3f
+	.uleb128 0x3
+	.string	"hdr"
+	.value	0x268
+	.byte	0xf
+	.long	0x1245
+	.byte	0
+	.uleb128 0x2
+	.long	.LASF321
+	.value	0x269
+	.byte	0x8
+	.long	0x54b
+	.byte	0x28
+	.byte	0
+	.uleb128 0x6
+	.long	.LASF142
+	.byte	0x28
+	.value	0x26c
+	.long	0x1c59
+	.uleb128 0x3
+	.string	"hdr"
+	.value	0x26d
+	.byte	0xf
+	.long	0x1245
+	.byte	0
+	.byte	0
+	.uleb128 0x6
+	.long	.LASF143
+	.byte	0x78
+	.value	0x270
+	.long	0x1c80
+	.uleb128 0x3
+	.string	"hdr"
+	.value	0x271
+	.byte	0xf
+	.long	0x1245
+	.byte	0
+	.uleb128 0x2
+	.long	.LASF315
+	.value	0x272
+	.byte	0x8
+	.long	0x12e6
+	.byte	0x28
+	.byte	0
+	.uleb128 0x6
+	.long	.LASF144
+	.byte	0x30
+	.value	0x275
+	.long	0x1ca7
+	.uleb128 0x3
+	.string	"hdr"
+	.value	0x276
+	.byte	0xf
+	.long	0x1245
+	.byte	0
+	.uleb128 0x2
+	.long	.LASF321
+	.value	0x277
+	.byte	0x8
+	.long	0x54b
+	.byte	0x28
+	.byte	0
+	.uleb128 0x6
+	.long	.LASF145
+	.byte	0x40
+	.value	0x27a
+	.long	0x1ce8
+	.uleb128 0x3
+	.string	"hdr"
+	.value	0x27b
+	.byte	0xf
+	.long	0x1245
+	.byte	0
+	.uleb128 0x2
+	.long	.LASF335
+	.value	0x27c
+	.byte	0x8
+	.long	0x54b
+	.byte	0x28
+	.uleb128 0x2
+	.long	.LASF336
+	.value	0x27d
+	.byte	0x8
+	.long	0x54b
+	.byte	0x30
+	.uleb128 0x2
+	.long	.LASF322
+	.value	0x27e
+	.byte	0x8
+	.long	0x54b
+	.byte	0x38
+	.byte	0
+	.uleb128 0x6
+	.long	.LASF146
+	.byte	0x38
+	.value	0x281
+	.long	0x1d1c
+	.uleb128 0x3
+	.string	"hdr"
+	.value	0x282
+	.byte	0xf
+	.long	0x1245
+	.byte	0
+	.uleb128 0x2
+	.long	.LASF321
+	.value	0x283
+	.byte	0x8
+	.long	0x54b
+	.byte	0x28
+	.uleb128 0x2
+	.long	.LASF314
+	.value	0x284
+	.byte	0x8
+	.long	0x54b
+	.byte	0x30
+	.byte	0
+	.uleb128 0x6
+	.long	.LASF147
+	.byte	0x38
+	.value	0x287
+	.long	0x1d50
+	.uleb128 0x3
+	.string	"hdr"
+	.value	0x288
+	.byte	0xf
+	.long	0x1245
+	.byte	0
+	.uleb128 0x2
+	.long	.LASF320
+	.value	0x289
+	.byte	0x8
+	.long	0x54b
+	.byte	0x28
+	.uleb128 0x2
+	.long	.LASF326
+	.value	0x28a
+	.byte	0x8
+	.long	0x54b
+	.byte	0x30
+	.byte	0
+	.uleb128 0x6
+	.long	.LASF148
+	.byte	0x30
+	.value	0x28d
+	.long	0x1d77
+	.uleb128 0x3
+	.string	"hdr"
+	.value	0x28e
+	.byte	0xf
+	.long	0x1245
+	.byte	0
+	.uleb128 0x2
+	.long	.LASF321
+	.value	0x28f
+	.byte	0x8
+	.long	0x54b
+	.byte	0x28
+	.byte	0
+	.uleb128 0x6
+	.long	.LASF149
+	.byte	0x30
+	.value	0x292
+	.long	0x1d9e
+	.uleb128 0x3
+	.string	"hdr"
+	.value	0x293
+	.byte	0xf
+	.long	0x1245
+	.byte	0
+	.uleb128 0x2
+	.long	.LASF322
+	.value	0x294
+	.byte	0x8
+	.long	0x54b
+	.byte	0x28
+	.byte	0
+	.uleb128 0x6
+	.long	.LASF150
+	.byte	0x80
+	.value	0x297
+	.long	0x1dd2
+	.uleb128 0x3
+	.string	"hdr"
+	.value	0x298
+	.byte	0xf
+	.long	0x1245
+	.byte	0
+	.uleb128 0x2
+	.long	.LASF322
+	.value	0x299
+	.byte	0x8
+	.long	0x54b
+	.byte	0x28
+	.uleb128 0x2
+	.long	.LASF323
+	.value	0x29a
+	.byte	0x8
+	.long	0x12e6
+	.byte	0x30
+	.byte	0
+	.uleb128 0x6
+	.long	.LASF151
+	.byte	0x38
+	.value	0x29d
+	.long	0x1e06
+	.uleb128 0x3
+	.string	"hdr"
+	.value	0x29e
+	.byte	0xf
+	.long	0x1245
+	.byte	0
+	.uleb128 0x2
+	.long	.LASF321
+	.value	0x29f
+	.byte	0x8
+	.long	0x54b
+	.byte	0x28
+	.uleb128 0x2
+	.long	.LASF314
+	.value	0x2a0
+	.byte	0x8
+	.long	0x54b
+	.byte	0x30
+	.byte	0
+	.uleb128 0x6
+	.long	.LASF152
+	.byte	0x38
+	.value	0x2a3
+	.long	0x1e3a
+	.uleb128 0x3
+	.string	"hdr"
+	.value	0x2a4
+	.byte	0xf
+	.long	0x1245
+	.byte	0
+	.uleb128 0x2
+	.long	.LASF321
+	.value	0x2a5
+	.byte	0x8
+	.long	0x54b
+	.byte	0x28
+	.uleb128 0x2
+	.long	.LASF314
+	.value	0x2a6
+	.byte	0x8
+	.long	0x54b
+	.byte	0x30
+	.byte	0
+	.uleb128 0x6
+	.long	.LASF153
+	.byte	0x30
+	.value	0x2a9
+	.long	0x1e61
+	.uleb128 0x3
+	.string	"hdr"
+	.value	0x2aa
+	.byte	0xf
+	.long	0x1245
+	.byte	0
+	.uleb128 0x2
+	.long	.LASF325
+	.value	0x2ab
+	.byte	0x8
+	.long	0x54b
+	.byte	0x28
+	.byte	0
+	.uleb128 0x6
+	.long	.LASF154
+	.byte	0x38
+	.value	0x2ae
+	.long	0x1e95
+	.uleb128 0x3
+	.string	"hdr"
+	.value	0x2af
+	.byte	0xf
+	.long	0x1245
+	.byte	0
+	.uleb128 0x2
+	.long	.LASF338
+	.value	0x2b0
+	.byte	0x8
+	.long	0x54b
+	.byte	0x28
+	.uleb128 0x2
+	.long	.LASF339
+	.value	0x2b1
+	.byte	0x8
+	.long	0x54b
+	.byte	0x30
+	.byte	0
+	.uleb128 0x6
+	.long	.LASF155
+	.byte	0x78
+	.value	0x2b4
+	.long	0x1ebc
+	.uleb128 0x3
+	.string	"hdr"
+	.value	0x2b5
+	.byte	0xf
+	.long	0x1245
+	.byte	0
+	.uleb128 0x2
+	.long	.LASF315
+	.value	0x2b6
+	.byte	0x8
+	.long	0x12e6
+	.byte	0x28
+	.byte	0
+	.uleb128 0x6
+	.long	.LASF156
+	.byte	0x30
+	.value	0x2b9
+	.long	0x1ee3
+	.uleb128 0x3
+	.string	"hdr"
+	.value	0x2ba
+	.byte	0xf
+	.long	0x1245
+	.byte	0
+	.uleb128 0x2
+	.long	.LASF340
+	.value	0x2bb
+	.byte	0x8
+	.long	0x54b
+	.byte	0x28
+	.byte	0
+	.uleb128 0x6
+	.long	.LASF157
+	.byte	0x48
+	.value	0x2be
+	.long	0x1f30
+	.uleb128 0x3
+	.string	"hdr"
+	.value	0x2bf
+	.byte	0xf
+	.long	0x1245
+	.byte	0
+	.uleb128 0x2
+	.long	.LASF321
+	.value	0x2c0
+	.byte	0x8
+	.long	0x54b
+	.byte	0x28
+	.uleb128 0x3
+	.string	"id"
+	.value	0x2c1
+	.byte	0x8
+	.long	0x54b
+	.byte	0x30
+	.uleb128 0x2
+	.long	.LASF324
+	.value	0x2c2
+	.byte	0x8
+	.long	0x54b
+	.byte	0x38
+	.uleb128 0x2
+	.long	.LASF341
+	.value	0x2c3
+	.byte	0x8
+	.long	0x54b
+	.byte	0x40
+	.byte	0
+	.uleb128 0x6
+	.long	.LASF158
+	.byte	0x38
+	.value	0x2c6
+	.long	0x1f64
+	.uleb128 0x3
+	.string	"hdr"
+	.value	0x2c7
+	.byte	0xf
+	.long	0x1245
+	.byte	0
+	.uleb128 0x2
+	.long	.LASF337
+	.value	0x2c8
+	.byte	0x8
+	.long	0x54b
+	.byte	0x28
+	.uleb128 0x2
+	.long	.LASF321
+	.value	0x2c9
+	.byte	0x8
+	.long	0x54b
+	.byte	0x30
+	.byte	0
+	.uleb128 0x6
+	.long	.LASF159
+	.byte	0x30
+	.value	0x2cc
+	.long	0x1f8b
+	.uleb128 0x3
+	.string	"hdr"
+	.value	0x2cd
+	.byte	0xf
+	.long	0x1245
+	.byte	0
+	.uleb128 0x2
+	.long	.LASF318
+	.value	0x2ce
+	.byte	0x8
+	.long	0x54b
+	.byte	0x28
+	.byte	0
+	.uleb128 0x6
+	.long	.LASF160
+	.byte	0x38
+	.value	0x2d1
+	.long	0x1fbf
+	.uleb128 0x3
+	.string	"hdr"
+	.value	0x2d2
+	.byte	0xf
+	.long	0x1245
+	.byte	0
+	.uleb128 0x2
+	.long	.LASF316
+	.value	0x2d3
+	.byte	0x8
+	.long	0x54b
+	.byte	0x28
+	.uleb128 0x2
+	.long	.LASF342
+	.value	0x2d4
+	.byte	0x8
+	.long	0x54b
+	.byte	0x30
+	.byte	0
+	.uleb128 0x6
+	.long	.LASF161
+	.byte	0x30
+	.value	0x2d7
+	.long	0x1fe6
+	.uleb128 0x3
+	.string	"hdr"
+	.value	0x2d8
+	.byte	0xf
+	.long	0x1245
+	.byte	0
+	.uleb128 0x2
+	.long	.LASF325
+	.value	0x2d9
+	.byte	0x8
+	.long	0x54b
+	.byte	0x28
+	.byte	0
+	.uleb128 0x13
+	.long	.LASF343
+	.byte	0xf
+	.byte	0xd
+	.byte	0x6
+	.long	0x1ffd
+	.uleb128 0x1
+	.long	0x315
+	.uleb128 0x1
+	.long	0x2ee
+	.byte	0
+	.uleb128 0x13
+	.long	.LASF344
+	.byte	0xf
+	.byte	0xc
+	.byte	0x6
+	.long	0x2014
+	.uleb128 0x1
+	.long	0x315
+	.uleb128 0x1
+	.long	0x2ee
+	.byte	0
+	.uleb128 0x22
+	.long	.LASF345
+	.byte	0xe
+	.value	0x3c3
+	.byte	0xd
+	.long	0x2ee
+	.long	0x2030
+	.uleb128 0x1
+	.long	0x54b
+	.uleb128 0x1
+	.long	0x54b
+	.byte	0
+	.uleb128 0x14
+	.long	.LASF346
+	.byte	0x10
+	.byte	0x24
+	.byte	0xf
+	.long	0x315
+	.long	0x2047
+	.uleb128 0x1
+	.long	0x2cf
+	.uleb128 0x15
+	.byte	0
+	.uleb128 0x13
+	.long	.LASF347
+	.byte	0x11
+	.byte	0x37
+	.byte	0xd
+	.long	0x2059
+	.uleb128 0x1
+	.long	0x315
+	.byte	0
+	.uleb128 0x22
+	.long	.LASF348
+	.byte	0x12
+	.value	0x197
+	.byte	0xf
+	.long	0xd4
+	.long	0x2070
+	.uleb128 0x1
+	.long	0x2cf
+	.byte	0
+	.uleb128 0x14
+	.long	.LASF349
+	.byte	0x11
+	.byte	0x26
+	.byte	0xf
+	.long	0x315
+	.long	0x2087
+	.uleb128 0x1
+	.long	0x315
+	.uleb128 0x15
+	.byte	0
+	.uleb128 0x13
+	.long	.LASF350
+	.byte	0xf
+	.byte	0x6
+	.byte	0x6
+	.long	0x20a3
+	.uleb128 0x1
+	.long	0x315
+	.uleb128 0x1
+	.long	0x315
+	.uleb128 0x1
+	.long	0x315
+	.byte	0
+	.uleb128 0x14
+	.long	.LASF351
+	.byte	0x8
+	.byte	0x17
+	.byte	0xf
+	.long	0x315
+	.long	0x20b9
+	.uleb128 0x1
+	.long	0x33c
+	.byte	0
+	.uleb128 0x14
+	.long	.LASF352
+	.byte	0x8
+	.byte	0x3f
+	.byte	0xc
+	.long	0x2e
+	.long	0x20d5
+	.uleb128 0x1
+	.long	0x33c
+	.uleb128 0x1
+	.long	0x2cf
+	.uleb128 0x15
+	.byte	0
+	.uleb128 0x33
+	.long	.LASF374
+	.byte	0x8
+	.byte	0x12
+	.byte	0xf
+	.long	0x33c
+	.uleb128 0x13
+	.long	.LASF353
+	.byte	0xf
+	.byte	0x8
+	.byte	0x6
+	.long	0x20fd
+	.uleb128 0x1
+	.long	0x315
+	.uleb128 0x1
+	.long	0x2e
+	.uleb128 0x1
+	.long	0x2e
+	.byte	0
+	.uleb128 0x14
+	.long	.LASF354
+	.byte	0x13
+	.byte	0x41
+	.byte	0x7
+	.long	0x54b
+	.long	0x2113
+	.uleb128 0x1
+	.long	0x315
+	.byte	0
+	.uleb128 0x14
+	.long	.LASF355
+	.byte	0x13
+	.byte	0x28
+	.byte	0xe
+	.long	0x54b
+	.long	0x212e
+	.uleb128 0x1
+	.long	0x54b
+	.uleb128 0x1
+	.long	0x54b
+	.byte	0
+	.uleb128 0x34
+	.string	"id"
+	.byte	0x13
+	.byte	0x39
+	.byte	0xe
+	.long	0x54b
+	.long	0x2143
+	.uleb128 0x1
+	.long	0x315
+	.byte	0
+	.uleb128 0x23
+	.long	.LASF357
+	.byte	0x18
+	.uleb128 0x13
+	.long	.LASF356
+	.byte	0xf
+	.byte	0x15
+	.byte	0x6
+	.long	0x2160
+	.uleb128 0x1
+	.long	0x80
+	.uleb128 0x1
+	.long	0x2160
+	.byte	0
+	.uleb128 0x7
+	.long	0x2165
+	.uleb128 0x35
+	.uleb128 0x23
+	.long	.LASF358
+	.byte	0x17
+	.uleb128 0x17
+	.long	.LASF359
+	.byte	0x63
+	.quad	.LFB6
+	.quad	.LFE6-.LFB6
+	.uleb128 0x1
+	.byte	0x9c
+	.long	0x21a4
+	.uleb128 0xd
+	.string	"ab"
+	.byte	0x65
+	.byte	0x8
+	.long	0x54b
+	.uleb128 0x2
+	.byte	0x91
+	.sleb128 -24
+	.uleb128 0xd
+	.string	"ab2"
+	.byte	0x65
+	.byte	0xc
+	.long	0x54b
+	.uleb128 0x2
+	.byte	0x91
+	.sleb128 -32
+	.byte	0
+	.uleb128 0x17
+	.long	.LASF360
+	.byte	0x59
+	.quad	.LFB5
+	.quad	.LFE5-.LFB5
+	.uleb128 0x1
+	.byte	0x9c
+	.long	0x21da
+	.uleb128 0xd
+	.string	"ab"
+	.byte	0x5b
+	.byte	0x8
+	.long	0x54b
+	.uleb128 0x2
+	.byte	0x91
+	.sleb128 -24
+	.uleb128 0xd
+	.string	"s"
+	.byte	0x5d
+	.byte	0x9
+	.long	0x315
+	.uleb128 0x2
+	.byte	0x91
+	.sleb128 -32
+	.byte	0
+	.uleb128 0x36
+	.long	.LASF375
+	.byte	0x1
+	.byte	0x4b
+	.byte	0x1
+	.quad	.LFB4
+	.quad	.LFE4-.LFB4
+	.uleb128 0x1
+	.byte	0x9c
+	.long	0x2253
+	.uleb128 0x1b
+	.long	.LASF361
+	.byte	0x1b
+	.long	0x315
+	.uleb128 0x2
+	.byte	0x91
+	.sleb128 -56
+	.uleb128 0x1b
+	.long	.LASF362
+	.byte	0x28
+	.long	0x315
+	.uleb128 0x2
+	.byte	0x91
+	.sleb128 -64
+	.uleb128 0x1b
+	.long	.LASF363
+	.byte	0x36
+	.long	0x54b
+	.uleb128 0x3
+	.byte	0x91
+	.sleb128 -72
+	.uleb128 0xd
+	.string	"b"
+	.byte	0x4d
+	.byte	0x9
+	.long	0x33c
+	.uleb128 0x2
+	.byte	0x91
+	.sleb128 -24
+	.uleb128 0xd
+	.string	"cc"
+	.byte	0x4e
+	.byte	0x6
+	.long	0x2e
+	.uleb128 0x2
+	.byte	0x91
+	.sleb128 -28
+	.uleb128 0xd
+	.string	"s"
+	.byte	0x4f
+	.byte	0x9
+	.long	0x315
+	.uleb128 0x2
+	.byte	0x91
+	.sleb128 -40
+	.uleb128 0x24
+	.long	.LASF364
+	.byte	0x50
+	.long	0x315
+	.uleb128 0x2
+	.byte	0x91
+	.sleb128 -48
+	.byte	0
+	.uleb128 0x17
+	.long	.LASF365
+	.byte	0x2d
+	.quad	.LFB3
+	.quad	.LFE3-.LFB3
+	.uleb128 0x1
+	.byte	0x9c
+	.long	0x2295
+	.uleb128 0xd
+	.string	"l"
+	.byte	0x2f
+	.byte	0xc
+	.long	0x9ab
+	.uleb128 0x2
+	.byte	0x91
+	.sleb128 -40
+	.uleb128 0xd
+	.string	"b"
+	.byte	0x30
+	.byte	0x9
+	.long	0x33c
+	.uleb128 0x2
+	.byte	0x91
+	.sleb128 -48
+	.uleb128 0x24
+	.long	.LASF366
+	.byte	0x31
+	.long	0x315
+	.uleb128 0x2
+	.byte	0x91
+	.sleb128 -56
+	.byte	0
+	.uleb128 0x17
+	.long	.LASF367
+	.byte	0x22
+	.quad	.LFB2
+	.quad	.LFE2-.LFB2
+	.uleb128 0x1
+	.byte	0x9c
+	.long	0x22ce
+	.uleb128 0xd
+	.string	"ab1"
+	.byte	0x24
+	.byte	0x8
+	.long	0x54b
+	.uleb128 0x2
+	.byte	0x91
+	.sleb128 -24
+	.uleb128 0xd
+	.string	"ab2"
+	.byte	0x24
+	.byte	0xd
+	.long	0x54b
+	.uleb128 0x2
+	.byte	0x91
+	.sleb128 -32
+	.byte	0
+	.uleb128 0x37
+	.long	.LASF376
+	.byte	0x1
+	.byte	0x1b
+	.byte	0x1
+	.quad	.LFB1
+	.quad	.LFE1-.LFB1
+	.uleb128 0x1
+	.byte	0x9c
+	.uleb128 0x38
+	.long	.LASF377
+	.byte	0x1
+	.byte	0xf
+	.byte	0x1
+	.quad	.LFB0
+	.quad	.LFE0-.LFB0
+	.uleb128 0x1
+	.byte	0x9c
+	.byte	0
+	.section	.debug_abbrev,"",@progbits
+.Ldebug_abbrev0:
+	.uleb128 0x1
+	.uleb128 0x5
+	.byte	0
+	.uleb128 0x49
+	.uleb128 0x13
+	.byte	0
+	.byte	0
+	.uleb128 0x2
+	.uleb128 0xd
+	.byte	0
+	.uleb128 0x3
+	.uleb128 0xe
+	.uleb128 0x3a
+	.uleb128 0x21
+	.sleb128 14
+	.uleb128 0x3b
+	.uleb128 0x5
+	.uleb128 0x39
+	.uleb128 0xb
+	.uleb128 0x49
+	.uleb128 0x13
+	.uleb128 0x38
+	.uleb128 0xb
+	.byte	0
+	.byte	0
+	.uleb128 0x3
+	.uleb128 0xd
+	.byte	0
+	.uleb128 0x3
+	.uleb128 0x8
+	.uleb128 0x3a
+	.uleb128 0x21
+	.sleb128 14
+	.uleb128 0x3b
+	.uleb128 0x5
+	.uleb128 0x39
+	.uleb128 0xb
+	.uleb128 0x49
+	.uleb128 0x13
+	.uleb128 0x38
+	.uleb128 0xb
+	.byte	0
+	.byte	0
+	.uleb128 0x4
+	.uleb128 0x28
+	.byte	0
+	.uleb128 0x3
+	.uleb128 0xe
+	.uleb128 0x1c
+	.uleb128 0xb
+	.byte	0
+	.byte	0
+	.uleb128 0x5
+	.uleb128 0xd
+	.byte	0
+	.uleb128 0x3
+	.uleb128 0xe
+	.uleb128 0x3a
+	.uleb128 0x21
+	.sleb128 14
+	.uleb128 0x3b
+	.uleb128 0x5
+	.uleb128 0x39
+	.uleb128 0xb
+	.uleb128 0x49
+	.uleb128 0x13
+	.byte	0
+	.byte	0
+	.uleb128 0x6
+	.uleb128 0x13
+	.byte	0x1
+	.uleb128 0x3
+	.uleb128 0xe
+	.uleb128 0xb
+	.uleb128 0xb
+	.uleb128 0x3a
+	.uleb128 0x21
+	.sleb128 14
+	.uleb128 0x3b
+	.uleb128 0x5
+	.uleb128 0x39
+	.uleb128 0x21
+	.sleb128 8
+	.uleb128 0x1
+	.uleb128 0x13
+	.byte	0
+	.byte	0
+	.uleb128 0x7
+	.uleb128 0xf
+	.byte	0
+	.uleb128 0xb
+	.uleb128 0x21
+	.sleb128 8
+	.uleb128 0x49
+	.uleb128 0x13
+	.byte	0
+	.byte	0
+	.uleb128 0x8
+	.uleb128 0xd
+	.byte	0
+	.uleb128 0x3
+	.uleb128 0xe
+	.uleb128 0x3a
+	.uleb128 0xb
+	.uleb128 0x3b
+	.uleb128 0xb
+	.uleb128 0x39
+	.uleb128 0xb
+	.uleb128 0x49
+	.uleb128 0x13
+	.uleb128 0x38
+	.uleb128 0xb
+	.byte	0
+	.byte	0
+	.uleb128 0x9
+	.uleb128 0x15
+	.byte	0x1
+	.uleb128 0x27
+	.uleb128 0x19
+	.uleb128 0x49
+	.uleb128 0x13
+	.uleb128 0x1
+	.uleb128 0x13
+	.byte	0
+	.byte	0
+	.uleb128 0xa
+	.uleb128 0xd
+	.byte	0
+	.uleb128 0x3
+	.uleb128 0xe
+	.uleb128 0x3a
+	.uleb128 0x21
+	.sleb128 12
+	.uleb128 0x3b
+	.uleb128 0x21
+	.sleb128 79
+	.uleb128 0x39
+	.uleb128 0x5
+	.uleb128 0x49
+	.uleb128 0x13
+	.uleb128 0x38
+	.uleb128 0xb
+	.byte	0
+	.byte	0
+	.uleb128 0xb
+	.uleb128 0x16
+	.byte	0
+	.uleb128 0x3
+	.uleb128 0xe
+	.uleb128 0x3a
+	.uleb128 0xb
+	.uleb128 0x3b
+	.uleb128 0xb
+	.uleb128 0x39
+	.uleb128 0xb
+	.uleb128 0x49
+	.uleb128 0x13
+	.byte	0
+	.byte	0
+	.uleb128 0xc
+	.uleb128 0x24
+	.byte	0
+	.uleb128 0xb
+	.uleb128 0xb
+	.uleb128 0x3e
+	.uleb128 0xb
+	.uleb128 0x3
+	.uleb128 0xe
+	.byte	0
+	.byte	0
+	.uleb128 0xd
+	.uleb128 0x34
+	.byte	0
+	.uleb128 0x3
+	.uleb128 0x8
+	.uleb128 0x3a
+	.uleb128 0x21
+	.sleb128 1
+	.uleb128 0x3b
+	.uleb128 0xb
+	.uleb128 0x39
+	.uleb128 0xb
+	.uleb128 0x49
+	.uleb128 0x13
+	.uleb128 0x2
+	.uleb128 0x18
+	.byte	0
+	.byte	0
+	.uleb128 0xe
+	.uleb128 0x16
+	.byte	0
+	.uleb128 0x3
+	.uleb128 0xe
+	.uleb128 0x3a
+	.uleb128 0xb
+	.uleb128 0x3b
+	.uleb128 0x5
+	.uleb128 0x39
+	.uleb128 0xb
+	.uleb128 0x49
+	.uleb128 0x13
+	.byte	0
+	.byte	0
+	.uleb128 0xf
+	.uleb128 0x13
+	.byte	0x1
+	.uleb128 0x3
+	.uleb128 0xe
+	.uleb128 0xb
+	.uleb128 0xb
+	.uleb128 0x3a
+	.uleb128 0xb
+	.uleb128 0x3b
+	.uleb128 0xb
+	.uleb128 0x39
+	.uleb128 0xb
+	.uleb128 0x1
+	.uleb128 0x13
+	.byte	0
+	.byte	0
+	.uleb128 0x10
+	.uleb128 0x13
+	.byte	0
+	.uleb128 0x3
+	.uleb128 0xe
+	.uleb128 0x3c
+	.uleb128 0x19
+	.byte	0
+	.byte	0
+	.uleb128 0x11
+	.uleb128 0xd
+	.byte	0
+	.uleb128 0x3
+	.uleb128 0xe
+	.uleb128 0x3a
+	.uleb128 0x21
+	.sleb128 12
+	.uleb128 0x3b
+	.uleb128 0x21
+	.sleb128 79
+	.uleb128 0x39
+	.uleb128 0x5
+	.uleb128 0x49
+	.uleb128 0x13
+	.uleb128 0x38
+	.uleb128 0x5
+	.byte	0
+	.byte	0
+	.uleb128 0x12
+	.uleb128 0x15
+	.byte	0x1
+	.uleb128 0x27
+	.uleb128 0x19
+	.uleb128 0x1
+	.uleb128 0x13
+	.byte	0
+	.byte	0
+	.uleb128 0x13
+	.uleb128 0x2e
+	.byte	0x1
+	.uleb128 0x3f
+	.uleb128 0x19
+	.uleb128 0x3
+	.uleb128 0xe
+	.uleb128 0x3a
+	.uleb128 0xb
+	.uleb128 0x3b
+	.uleb128 0xb
+	.uleb128 0x39
+	.uleb128 0xb
+	.uleb128 0x27
+	.uleb128 0x19
+	.uleb128 0x3c
+	.uleb128 0x19
+	.uleb128 0x1
+	.uleb128 0x13
+	.byte	0
+	.byte	0
+	.uleb128 0x14
+	.uleb128 0x2e
+	.byte	0x1
+	.uleb128 0x3f
+	.uleb128 0x19
+	.uleb128 0x3
+	.uleb128 0xe
+	.uleb128 0x3a
+	.uleb128 0xb
+	.uleb128 0x3b
+	.uleb128 0xb
+	.uleb128 0x39
+	.uleb128 0xb
+	.uleb128 0x27
+	.uleb128 0x19
+	.uleb128 0x49
+	.uleb128 0x13
+	.uleb128 0x3c
+	.uleb128 0x19
+	.uleb128 0x1
+	.uleb128 0x13
+	.byte	0
+	.byte	0
+	.uleb128 0x15
+	.uleb128 0x18
+	.byte	0
+	.byte	0
+	.byte	0
+	.uleb128 0x16
+	.uleb128 0xd
+	.byte	0
+	.uleb128 0x3
+	.uleb128 0xe
+	.uleb128 0x3a
+	.uleb128 0x21
+	.sleb128 3
+	.uleb128 0x3b
+	.uleb128 0x21
+	.sleb128 0
+	.uleb128 0x49
+	.uleb128 0x13
+	.uleb128 0x38
+	.uleb128 0xb
+	.byte	0
+	.byte	0
+	.uleb128 0x17
+	.uleb128 0x2e
+	.byte	0x1
+	.uleb128 0x3
+	.uleb128 0xe
+	.uleb128 0x3a
+	.uleb128 0x21
+	.sleb128 1
+	.uleb128 0x3b
+	.uleb128 0xb
+	.uleb128 0x39
+	.uleb128 0x21
+	.sleb128 1
+	.uleb128 0x11
+	.uleb128 0x1
+	.uleb128 0x12
+	.uleb128 0x7
+	.uleb128 0x40
+	.uleb128 0x18
+	.uleb128 0x7c
+	.uleb128 0x19
+	.uleb128 0x1
+	.uleb128 0x13
+	.byte	0
+	.byte	0
+	.uleb128 0x18
+	.uleb128 0x1
+	.byte	0x1
+	.uleb128 0x49
+	.uleb128 0x13
+	.uleb128 0x1
+	.uleb128 0x13
+	.byte	0
+	.byte	0
+	.uleb128 0x19
+	.uleb128 0x21
+	.byte	0
+	.uleb128 0x49
+	.uleb128 0x13
+	.uleb128 0x2f
+	.uleb128 0xb
+	.byte	0
+	.byte	0
+	.uleb128 0x1a
+	.uleb128 0xd
+	.byte	0
+	.uleb128 0x3
+	.uleb128 0x8
+	.uleb128 0x3a
+	.uleb128 0x21
+	.sleb128 14
+	.uleb128 0x3b
+	.uleb128 0x5
+	.uleb128 0x39
+	.uleb128 0xb
+	.uleb128 0x49
+	.uleb128 0x13
+	.byte	0
+	.byte	0
+	.uleb128 0x1b
+	.uleb128 0x5
+	.byte	0
+	.uleb128 0x3
+	.uleb128 0xe
+	.uleb128 0x3a
+	.uleb128 0x21
+	.sleb128 1
+	.uleb128 0x3b
+	.uleb128 0x21
+	.sleb128 75
+	.uleb128 0x39
+	.uleb128 0xb
+	.uleb128 0x49
+	.uleb128 0x13
+	.uleb128 0x2
+	.uleb128 0x18
+	.byte	0
+	.byte	0
+	.uleb128 0x1c
+	.uleb128 0x26
+	.byte	0
+	.uleb128 0x49
+	.uleb128 0x13
+	.byte	0
+	.byte	0
+	.uleb128 0x1d
+	.uleb128 0xd
+	.byte	0
+	.uleb128 0x3
+	.uleb128 0x8
+	.uleb128 0x3a
+	.uleb128 0xb
+	.uleb128 0x3b
+	.uleb128 0xb
+	.uleb128 0x39
+	.uleb128 0xb
+	.uleb128 0x49
+	.uleb128 0x13
+	.uleb128 0x38
+	.uleb128 0xb
+	.byte	0
+	.byte	0
+	.uleb128 0x1e
+	.uleb128 0xd
+	.byte	0
+	.uleb128 0x3
+	.uleb128 0x8
+	.uleb128 0x3a
+	.uleb128 0x21
+	.sleb128 9
+	.uleb128 0x3b
+	.uleb128 0xb
+	.uleb128 0x39
+	.uleb128 0xb
+	.uleb128 0x49
+	.uleb128 0x13
+	.byte	0
+	.byte	0
+	.uleb128 0x1f
+	.uleb128 0xd
+	.byte	0
+	.uleb128 0x3
+	.uleb128 0xe
+	.uleb128 0x3a
+	.uleb128 0x21
+	.sleb128 11
+	.uleb128 0x3b
+	.uleb128 0xb
+	.uleb128 0x39
+	.uleb128 0xb
+	.uleb128 0x49
+	.uleb128 0x13
+	.byte	0
+	.byte	0
+	.uleb128 0x20
+	.uleb128 0xd
+	.byte	0
+	.uleb128 0x3
+	.uleb128 0x8
+	.uleb128 0x3a
+	.uleb128 0x21
+	.sleb128 12
+	.uleb128 0x3b
+	.uleb128 0xb
+	.uleb128 0x39
+	.uleb128 0x5
+	.uleb128 0x49
+	.uleb128 0x13
+	.uleb128 0x38
+	.uleb128 0xb
+	.byte	0
+	.byte	0
+	.uleb128 0x21
+	.uleb128 0x17
+	.byte	0x1
+	.uleb128 0xb
+	.uleb128 0xb
+	.uleb128 0x3a
+	.uleb128 0x21
+	.sleb128 14
+	.uleb128 0x3b
+	.uleb128 0x5
+	.uleb128 0x39
+	.uleb128 0x21
+	.sleb128 2
+	.uleb128 0x1
+	.uleb128 0x13
+	.byte	0
+	.byte	0
+	.uleb128 0x22
+	.uleb128 0x2e
+	.byte	0x1
+	.uleb128 0x3f
+	.uleb128 0x19
+	.uleb128 0x3
+	.uleb128 0xe
+	.uleb128 0x3a
+	.uleb128 0xb
+	.uleb128 0x3b
+	.uleb128 0x5
+	.uleb128 0x39
+	.uleb128 0xb
+	.uleb128 0x27
+	.uleb128 0x19
+	.uleb128 0x49
+	.uleb128 0x13
+	.uleb128 0x3c
+	.uleb128 0x19
+	.uleb128 0x1
+	.uleb128 0x13
+	.byte	0
+	.byte	0
+	.uleb128 0x23
+	.uleb128 0x2e
+	.byte	0
+	.uleb128 0x3f
+	.uleb128 0x19
+	.uleb128 0x3
+	.uleb128 0xe
+	.uleb128 0x3a
+	.uleb128 0x21
+	.sleb128 15
+	.uleb128 0x3b
+	.uleb128 0xb
+	.uleb128 0x39
+	.uleb128 0x21
+	.sleb128 6
+	.uleb128 0x27
+	.uleb128 0x19
+	.uleb128 0x3c
+	.uleb128 0x19
+	.byte	0
+	.byte	0
+	.uleb128 0x24
+	.uleb128 0x34
+	.byte	0
+	.uleb128 0x3
+	.uleb128 0xe
+	.uleb128 0x3a
+	.uleb128 0x21
+	.sleb128 1
+	.uleb128 0x3b
+	.uleb128 0xb
+	.uleb128 0x39
+	.uleb128 0x21
+	.sleb128 9
+	.uleb128 0x49
+	.uleb128 0x13
+	.uleb128 0x2
+	.uleb128 0x18
+	.byte	0
+	.byte	0
+	.uleb128 0x25
+	.uleb128 0x11
+	.byte	0x1
+	.uleb128 0x25
+	.uleb128 0xe
+	.uleb128 0x13
+	.uleb128 0xb
+	.uleb128 0x3
+	.uleb128 0x1f
+	.uleb128 0x1b
+	.uleb128 0x1f
+	.uleb128 0x11
+	.uleb128 0x1
+	.uleb128 0x12
+	.uleb128 0x7
+	.uleb128 0x10
+	.uleb128 0x17
+	.byte	0
+	.byte	0
+	.uleb128 0x26
+	.uleb128 0x24
+	.byte	0
+	.uleb128 0xb
+	.uleb128 0xb
+	.uleb128 0x3e
+	.uleb128 0xb
+	.uleb128 0x3
+	.uleb128 0x8
+	.byte	0
+	.byte	0
+	.uleb128 0x27
+	.uleb128 0xf
+	.byte	0
+	.uleb128 0xb
+	.uleb128 0xb
+	.byte	0
+	.byte	0
+	.uleb128 0x28
+	.uleb128 0x13
+	.byte	0x1
+	.uleb128 0x3
+	.uleb128 0xe
+	.uleb128 0xb
+	.uleb128 0xb
+	.uleb128 0x3a
+	.uleb128 0xb
+	.uleb128 0x3b
+	.uleb128 0xb
+	.uleb128 0x1
+	.uleb128 0x13
+	.byte	0
+	.byte	0
+	.uleb128 0x29
+	.uleb128 0x16
+	.byte	0
+	.uleb128 0x3
+	.uleb128 0xe
+	.uleb128 0x3a
+	.uleb128 0xb
+	.uleb128 0x3b
+	.uleb128 0xb
+	.uleb128 0x39
+	.uleb128 0xb
+	.byte	0
+	.byte	0
+	.uleb128 0x2a
+	.uleb128 0x17
+	.byte	0x1
+	.uleb128 0xb
+	.uleb128 0xb
+	.uleb128 0x3a
+	.uleb128 0xb
+	.uleb128 0x3b
+	.uleb128 0xb
+	.uleb128 0x39
+	.uleb128 0xb
+	.uleb128 0x1
+	.uleb128 0x13
+	.byte	0
+	.byte	0
+	.uleb128 0x2b
+	.uleb128 0x17
+	.byte	0x1
+	.uleb128 0x3
+	.uleb128 0xe
+	.uleb128 0xb
+	.uleb128 0xb
+	.uleb128 0x3a
+	.uleb128 0xb
+	.uleb128 0x3b
+	.uleb128 0xb
+	.uleb128 0x39
+	.uleb128 0xb
+	.uleb128 0x1
+	.uleb128 0x13
+	.byte	0
+	.byte	0
+	.uleb128 0x2c
+	.uleb128 0x16
+	.byte	0
+	.uleb128 0x3
+	.uleb128 0x8
+	.uleb128 0x3a
+	.uleb128 0xb
+	.uleb128 0x3b
+	.uleb128 0xb
+	.uleb128 0x39
+	.uleb128 0xb
+	.uleb128 0x49
+	.uleb128 0x13
+	.byte	0
+	.byte	0
+	.uleb128 0x2d
+	.uleb128 0x13
+	.byte	0
+	.uleb128 0x3
+	.uleb128 0x8
+	.uleb128 0x3c
+	.uleb128 0x19
+	.byte	0
+	.byte	0
+	.uleb128 0x2e
+	.uleb128 0x17
+	.byte	0x1
+	.uleb128 0x3
+	.uleb128 0xe
+	.uleb128 0xb
+	.uleb128 0xb
+	.uleb128 0x3a
+	.uleb128 0xb
+	.uleb128 0x3b
+	.uleb128 0x5
+	.uleb128 0x39
+	.uleb128 0xb
+	.uleb128 0x1
+	.uleb128 0x13
+	.byte	0
+	.byte	0
+	.uleb128 0x2f
+	.uleb128 0x17
+	.byte	0
+	.uleb128 0x3
+	.uleb128 0xe
+	.uleb128 0x3c
+	.uleb128 0x19
+	.byte	0
+	.byte	0
+	.uleb128 0x30
+	.uleb128 0x13
+	.byte	0x1
+	.uleb128 0x3
+	.uleb128 0xe
+	.uleb128 0xb
+	.uleb128 0x5
+	.uleb128 0x3a
+	.uleb128 0xb
+	.uleb128 0x3b
+	.uleb128 0xb
+	.uleb128 0x39
+	.uleb128 0xb
+	.uleb128 0x1
+	.uleb128 0x13
+	.byte	0
+	.byte	0
+	.uleb128 0x31
+	.uleb128 0x34
+	.byte	0
+	.uleb128 0x3
+	.uleb128 0xe
+	.uleb128 0x3a
+	.uleb128 0xb
+	.uleb128 0x3b
+	.uleb128 0xb
+	.uleb128 0x39
+	.uleb128 0x5
+	.uleb128 0x49
+	.uleb128 0x13
+	.uleb128 0x3f
+	.uleb128 0x19
+	.uleb128 0x3c
+	.uleb128 0x19
+	.byte	0
+	.byte	0
+	.uleb128 0x32
+	.uleb128 0x4
+	.byte	0x1
+	.uleb128 0x3
+	.uleb128 0xe
+	.uleb128 0x3e
+	.uleb128 0xb
+	.uleb128 0xb
+	.uleb128 0xb
+	.uleb128 0x49
+	.uleb128 0x13
+	.uleb128 0x3a
+	.uleb128 0xb
+	.uleb128 0x3b
+	.uleb128 0xb
+	.uleb128 0x39
+	.uleb128 0xb
+	.uleb128 0x1
+	.uleb128 0x13
+	.byte	0
+	.byte	0
+	.uleb128 0x33
+	.uleb128 0x2e
+	.byte	0
+	.uleb128 0x3f
+	.uleb128 0x19
+	.uleb128 0x3
+	.uleb128 0xe
+	.uleb128 0x3a
+	.uleb128 0xb
+	.uleb128 0x3b
+	.uleb128 0xb
+	.uleb128 0x39
+	.uleb128 0xb
+	.uleb128 0x27
+	.uleb128 0x19
+	.uleb128 0x49
+	.uleb128 0x13
+	.uleb128 0x3c
+	.uleb128 0x19
+	.byte	0
+	.byte	0
+	.uleb128 0x34
+	.uleb128 0x2e
+	.byte	0x1
+	.uleb128 0x3f
+	.uleb128 0x19
+	.uleb128 0x3
+	.uleb128 0x8
+	.uleb128 0x3a
+	.uleb128 0xb
+	.uleb128 0x3b
+	.uleb128 0xb
+	.uleb128 0x39
+	.uleb128 0xb
+	.uleb128 0x27
+	.uleb128 0x19
+	.uleb128 0x49
+	.uleb128 0x13
+	.uleb128 0x3c
+	.uleb128 0x19
+	.uleb128 0x1
+	.uleb128 0x13
+	.byte	0
+	.byte	0
+	.uleb128 0x35
+	.uleb128 0x15
+	.byte	0
+	.uleb128 0x27
+	.uleb128 0x19
+	.byte	0
+	.byte	0
+	.uleb128 0x36
+	.uleb128 0x2e
+	.byte	0x1
+	.uleb128 0x3
+	.uleb128 0xe
+	.uleb128 0x3a
+	.uleb128 0xb
+	.uleb128 0x3b
+	.uleb128 0xb
+	.uleb128 0x39
+	.uleb128 0xb
+	.uleb128 0x27
+	.uleb128 0x19
+	.uleb128 0x11
+	.uleb128 0x1
+	.uleb128 0x12
+	.uleb128 0x7
+	.uleb128 0x40
+	.uleb128 0x18
+	.uleb128 0x7c
+	.uleb128 0x19
+	.uleb128 0x1
+	.uleb128 0x13
+	.byte	0
+	.byte	0
+	.uleb128 0x37
+	.uleb128 0x2e
+	.byte	0
+	.uleb128 0x3
+	.uleb128 0xe
+	.uleb128 0x3a
+	.uleb128 0xb
+	.uleb128 0x3b
+	.uleb128 0xb
+	.uleb128 0x39
+	.uleb128 0xb
+	.uleb128 0x11
+	.uleb128 0x1
+	.uleb128 0x12
+	.uleb128 0x7
+	.uleb128 0x40
+	.uleb128 0x18
+	.uleb128 0x7c
+	.uleb128 0x19
+	.byte	0
+	.byte	0
+	.uleb128 0x38
+	.uleb128 0x2e
+	.byte	0
+	.uleb128 0x3f
+	.uleb128 0x19
+	.uleb128 0x3
+	.uleb128 0xe
+	.uleb128 0x3a
+	.uleb128 0xb
+	.uleb128 0x3b
+	.uleb128 0xb
+	.uleb128 0x39
+	.uleb128 0xb
+	.uleb128 0x11
+	.uleb128 0x1
+	.uleb128 0x12
+	.uleb128 0x7
+	.uleb128 0x40
+	.uleb128 0x18
+	.uleb128 0x7c
+	.uleb128 0x19
+	.byte	0
+	.byte	0
+	.byte	0
+	.section	.debug_aranges,"",@progbits
+	.long	0x2c
+	.value	0x2
+	.long	.Ldebug_info0
+	.byte	0x8
+	.byte	0
+	.value	0
+	.value	0
+	.quad	.Ltext0
+	.quad	.Letext0-.Ltext0
+	.quad	0
+	.quad	0
+	.section	.debug_line,"",@progbits
+.Ldebug_line0:
+	.section	.debug_str,"MS",@progbits,1
+.LASF155:
+	.string	"abSequence"
+.LASF365:
+	.string	"testAbSynFormatList"
+.LASF239:
+	.string	"AB_CoerceTo"
+.LASF127:
+	.string	"abHide"
+.LASF234:
+	.string	"AB_Apply"
+.LASF38:
+	.string	"_shortbuf"
+.LASF370:
+	.string	"_IO_lock_t"
+.LASF58:
+	.string	"String"
+.LASF269:
+	.string	"AB_Let"
+.LASF275:
+	.string	"AB_Not"
+.LASF14:
+	.string	"gp_offset"
+.LASF216:
+	.string	"SymeList"
+.LASF242:
+	.string	"AB_Declare"
+.LASF353:
+	.string	"testIntEqual"
+.LASF27:
+	.string	"_IO_buf_end"
+.LASF204:
+	.string	"NConcat"
+.LASF332:
+	.string	"property"
+.LASF274:
+	.string	"AB_Never"
+.LASF108:
+	.string	"abComma"
+.LASF167:
+	.string	"tposs"
+.LASF163:
+	.string	"syme"
+.LASF356:
+	.string	"showTest"
+.LASF307:
+	.string	"self"
+.LASF281:
+	.string	"AB_Qualify"
+.LASF357:
+	.string	"fini"
+.LASF252:
+	.string	"AB_Extend"
+.LASF62:
+	.string	"buffer"
+.LASF55:
+	.string	"Bool"
+.LASF128:
+	.string	"abHook"
+.LASF362:
+	.string	"expect"
+.LASF319:
+	.string	"label"
+.LASF240:
+	.string	"AB_Collect"
+.LASF25:
+	.string	"_IO_write_end"
+.LASF4:
+	.string	"unsigned int"
+.LASF287:
+	.string	"AB_Return"
+.LASF320:
+	.string	"what"
+.LASF351:
+	.string	"bufLiberate"
+.LASF43:
+	.string	"_freeres_list"
+.LASF186:
+	.string	"FreeTo"
+.LASF308:
+	.string	"AbSeman"
+.LASF19:
+	.string	"_flags"
+.LASF84:
+	.string	"symbol"
+.LASF283:
+	.string	"AB_Raise"
+.LASF152:
+	.string	"abRetractTo"
+.LASF339:
+	.string	"alternatives"
+.LASF318:
+	.string	"test"
+.LASF352:
+	.string	"bufPrintf"
+.LASF53:
+	.string	"UByte"
+.LASF35:
+	.string	"_old_offset"
+.LASF31:
+	.string	"_markers"
+.LASF301:
+	.string	"comment"
+.LASF111:
+	.string	"abDDefine"
+.LASF98:
+	.string	"abAdd"
+.LASF210:
+	.string	"NRemove"
+.LASF310:
+	.string	"unique"
+.LASF232:
+	.string	"AB_Add"
+.LASF284:
+	.string	"AB_Reference"
+.LASF44:
+	.string	"_freeres_buf"
+.LASF342:
+	.string	"within"
+.LASF367:
+	.string	"testExquo"
+.LASF132:
+	.string	"abIterate"
+.LASF289:
+	.string	"AB_Sequence"
+.LASF110:
+	.string	"abDefine"
+.LASF297:
+	.string	"AB_NODE_LIMIT"
+.LASF375:
+	.string	"testAbSynFormatOne"
+.LASF136:
+	.string	"abLocal"
+.LASF68:
+	.string	"OstWriteCharFn"
+.LASF103:
+	.string	"abBreak"
+.LASF341:
+	.string	"always"
+.LASF119:
+	.string	"abFluid"
+.LASF190:
+	.string	"Drop"
+.LASF158:
+	.string	"abWhere"
+.LASF217:
+	.string	"AB_START"
+.LASF138:
+	.string	"abMDefine"
+.LASF30:
+	.string	"_IO_save_end"
+.LASF100:
+	.string	"abApply"
+.LASF225:
+	.string	"AB_DOC_LIMIT"
+.LASF12:
+	.string	"float"
+.LASF77:
+	.string	"SrcPosCell"
+.LASF292:
+	.string	"AB_Unit"
+.LASF249:
+	.string	"AB_Except"
+.LASF316:
+	.string	"base"
+.LASF331:
+	.string	"count"
+.LASF227:
+	.string	"AB_LitInteger"
+.LASF305:
+	.string	"embed"
+.LASF355:
+	.string	"declare"
+.LASF366:
+	.string	"result"
+.LASF16:
+	.string	"overflow_arg_area"
+.LASF285:
+	.string	"AB_Repeat"
+.LASF149:
+	.string	"abReference"
+.LASF198:
+	.string	"CopyDeeply"
+.LASF224:
+	.string	"AB_DocText"
+.LASF76:
+	.string	"SrcPos"
+.LASF72:
+	.string	"writeCharFn"
+.LASF260:
+	.string	"AB_Goto"
+.LASF87:
+	.string	"sposStack"
+.LASF317:
+	.string	"capsule"
+.LASF338:
+	.string	"testPart"
+.LASF29:
+	.string	"_IO_backup_base"
+.LASF268:
+	.string	"AB_Lambda"
+.LASF40:
+	.string	"_offset"
+.LASF302:
+	.string	"stab"
+.LASF95:
+	.string	"abLitInteger"
+.LASF286:
+	.string	"AB_RestrictTo"
+.LASF92:
+	.string	"abId"
+.LASF229:
+	.string	"AB_LitString"
+.LASF156:
+	.string	"abTest"
+.LASF325:
+	.string	"value"
+.LASF33:
+	.string	"_fileno"
+.LASF293:
+	.string	"AB_Where"
+.LASF45:
+	.string	"__pad5"
+.LASF60:
+	.string	"MostAlignedType"
+.LASF70:
+	.string	"OstCloseFn"
+.LASF246:
+	.string	"AB_Delay"
+.LASF205:
+	.string	"Memq"
+.LASF56:
+	.string	"Length"
+.LASF63:
+	.string	"OStreamPutFun"
+.LASF360:
+	.string	"testAbParse"
+.LASF18:
+	.string	"size_t"
+.LASF296:
+	.string	"AB_Yield"
+.LASF37:
+	.string	"_vtable_offset"
+.LASF340:
+	.string	"cond"
+.LASF191:
+	.string	"LastCons"
+.LASF279:
+	.string	"AB_PLambda"
+.LASF201:
+	.string	"Reverse"
+.LASF151:
+	.string	"abRestrictTo"
+.LASF22:
+	.string	"_IO_read_base"
+.LASF174:
+	.string	"AbSynListCons"
+.LASF363:
+	.string	"absyn"
+.LASF359:
+	.string	"testAbContains"
+.LASF333:
+	.string	"thenAlt"
+.LASF326:
+	.string	"origin"
+.LASF346:
+	.string	"aStrPrintf"
+.LASF277:
+	.string	"AB_Or"
+.LASF122:
+	.string	"abForeignExport"
+.LASF304:
+	.string	"implicit"
+.LASF334:
+	.string	"elseAlt"
+.LASF49:
+	.string	"_IO_marker"
+.LASF107:
+	.string	"abCollect"
+.LASF172:
+	.string	"first"
+.LASF178:
+	.string	"Singleton"
+.LASF264:
+	.string	"AB_Import"
+.LASF213:
+	.string	"GPrint"
+.LASF154:
+	.string	"abSelect"
+.LASF5:
+	.string	"long unsigned int"
+.LASF347:
+	.string	"strFree"
+.LASF184:
+	.string	"FreeCons"
+.LASF315:
+	.string	"argv"
+.LASF180:
+	.string	"Listv"
+.LASF105:
+	.string	"abDeclare"
+.LASF159:
+	.string	"abWhile"
+.LASF96:
+	.string	"abLitString"
+.LASF262:
+	.string	"AB_Hide"
+.LASF248:
+	.string	"AB_Documented"
+.LASF271:
+	.string	"AB_Macro"
+.LASF209:
+	.string	"Position"
+.LASF208:
+	.string	"Posq"
+.LASF147:
+	.string	"abQualify"
+.LASF343:
+	.string	"testFalse"
+.LASF11:
+	.string	"char"
+.LASF102:
+	.string	"abAssign"
+.LASF46:
+	.string	"_mode"
+.LASF59:
+	.string	"CString"
+.LASF324:
+	.string	"except"
+.LASF376:
+	.string	"testAbSynFormat"
+.LASF282:
+	.string	"AB_Quote"
+.LASF181:
+	.string	"ListNull"
+.LASF20:
+	.string	"_IO_read_ptr"
+.LASF187:
+	.string	"FreeDeeply"
+.LASF123:
+	.string	"abFree"
+.LASF67:
+	.string	"data"
+.LASF52:
+	.string	"long long int"
+.LASF349:
+	.string	"strlConcat"
+.LASF113:
+	.string	"abDocumented"
+.LASF278:
+	.string	"AB_Paren"
+.LASF93:
+	.string	"abIdSy"
+.LASF118:
+	.string	"abFix"
+.LASF238:
+	.string	"AB_Builtin"
+.LASF298:
+	.string	"AB_LIMIT"
+.LASF131:
+	.string	"abInline"
+.LASF114:
+	.string	"abExcept"
+.LASF253:
+	.string	"AB_Fix"
+.LASF299:
+	.string	"AbEmbed"
+.LASF336:
+	.string	"rtype"
+.LASF134:
+	.string	"abLambda"
+.LASF23:
+	.string	"_IO_write_base"
+.LASF74:
+	.string	"closeFn"
+.LASF116:
+	.string	"abExport"
+.LASF267:
+	.string	"AB_Label"
+.LASF257:
+	.string	"AB_ForeignExport"
+.LASF28:
+	.string	"_IO_save_base"
+.LASF81:
+	.string	"SrcPosStack"
+.LASF195:
+	.string	"IsLonger"
+.LASF294:
+	.string	"AB_While"
+.LASF226:
+	.string	"AB_STR_START"
+.LASF69:
+	.string	"OstWriteStringFn"
+.LASF75:
+	.string	"OStreamOps"
+.LASF115:
+	.string	"abExit"
+.LASF166:
+	.string	"TPoss"
+.LASF54:
+	.string	"ULong"
+.LASF221:
+	.string	"AB_Blank"
+.LASF215:
+	.string	"SymeListCons"
+.LASF220:
+	.string	"AB_IdSy"
+.LASF218:
+	.string	"AB_SYM_START"
+.LASF374:
+	.string	"bufNew"
+.LASF109:
+	.string	"abDefault"
+.LASF101:
+	.string	"abAssert"
+.LASF148:
+	.string	"abRaise"
+.LASF117:
+	.string	"abExtend"
+.LASF237:
+	.string	"AB_Break"
+.LASF140:
+	.string	"abNever"
+.LASF219:
+	.string	"AB_Id"
+.LASF335:
+	.string	"param"
+.LASF135:
+	.string	"abLet"
+.LASF142:
+	.string	"abNothing"
+.LASF85:
+	.string	"info"
+.LASF203:
+	.string	"Concat"
+.LASF90:
+	.string	"abGen"
+.LASF329:
+	.string	"whole"
+.LASF200:
+	.string	"NMap"
+.LASF243:
+	.string	"AB_Default"
+.LASF244:
+	.string	"AB_Define"
+.LASF241:
+	.string	"AB_Comma"
+.LASF197:
+	.string	"CopyTo"
+.LASF157:
+	.string	"abTry"
+.LASF312:
+	.string	"argc"
+.LASF94:
+	.string	"abDocText"
+.LASF348:
+	.string	"strlen"
+.LASF350:
+	.string	"testStringEqual"
+.LASF291:
+	.string	"AB_Try"
+.LASF202:
+	.string	"NReverse"
+.LASF79:
+	.string	"spos"
+.LASF171:
+	.string	"StabLevelListCons"
+.LASF247:
+	.string	"AB_Do"
+.LASF273:
+	.string	"AB_MLambda"
+.LASF364:
+	.string	"fullExpect"
+.LASF73:
+	.string	"writeStringFn"
+.LASF354:
+	.string	"abqParse"
+.LASF121:
+	.string	"abForeignImport"
+.LASF64:
+	.string	"OStream"
+.LASF141:
+	.string	"abNot"
+.LASF88:
+	.string	"abSyn"
+.LASF175:
+	.string	"AbSynList"
+.LASF183:
+	.string	"Find"
+.LASF214:
+	.string	"Format"
+.LASF160:
+	.string	"abWith"
+.LASF207:
+	.string	"ContainsAllq"
+.LASF373:
+	.string	"abSynTag"
+.LASF7:
+	.string	"short int"
+.LASF372:
+	.string	"AbSyn_listPointer"
+.LASF153:
+	.string	"abReturn"
+.LASF164:
+	.string	"TForm"
+.LASF161:
+	.string	"abYield"
+.LASF61:
+	.string	"Buffer"
+.LASF8:
+	.string	"long int"
+.LASF86:
+	.string	"AbSyn"
+.LASF78:
+	.string	"sposCell"
+.LASF143:
+	.string	"abOr"
+.LASF162:
+	.string	"Syme"
+.LASF65:
+	.string	"_IO_FILE"
+.LASF288:
+	.string	"AB_Select"
+.LASF377:
+	.string	"absynTest"
+.LASF270:
+	.string	"AB_Local"
+.LASF51:
+	.string	"_IO_wide_data"
+.LASF168:
+	.string	"StabLevel"
+.LASF83:
+	.string	"Symbol"
+.LASF196:
+	.string	"Copy"
+.LASF126:
+	.string	"abHas"
+.LASF179:
+	.string	"List"
+.LASF369:
+	.string	"__va_list_tag"
+.LASF254:
+	.string	"AB_Fluid"
+.LASF290:
+	.string	"AB_Test"
+.LASF261:
+	.string	"AB_Has"
+.LASF236:
+	.string	"AB_Assign"
+.LASF313:
+	.string	"seman"
+.LASF344:
+	.string	"testTrue"
+.LASF15:
+	.string	"fp_offset"
+.LASF230:
+	.string	"AB_STR_LIMIT"
+.LASF146:
+	.string	"abPretendTo"
+.LASF361:
+	.string	"name"
+.LASF82:
+	.string	"stack"
+.LASF26:
+	.string	"_IO_buf_base"
+.LASF173:
+	.string	"SImpl"
+.LASF245:
+	.string	"AB_DDefine"
+.LASF42:
+	.string	"_wide_data"
+.LASF295:
+	.string	"AB_With"
+.LASF192:
+	.string	"_Length"
+.LASF130:
+	.string	"abImport"
+.LASF358:
+	.string	"init"
+.LASF39:
+	.string	"_lock"
+.LASF99:
+	.string	"abAnd"
+.LASF189:
+	.string	"FreeIfSat"
+.LASF256:
+	.string	"AB_ForeignImport"
+.LASF50:
+	.string	"_IO_codecvt"
+.LASF265:
+	.string	"AB_Inline"
+.LASF233:
+	.string	"AB_And"
+.LASF211:
+	.string	"FillVector"
+.LASF17:
+	.string	"reg_save_area"
+.LASF266:
+	.string	"AB_Iterate"
+.LASF222:
+	.string	"AB_SYM_LIMIT"
+.LASF194:
+	.string	"IsShorter"
+.LASF104:
+	.string	"abBuiltin"
+.LASF322:
+	.string	"body"
+.LASF206:
+	.string	"Member"
+.LASF125:
+	.string	"abGoto"
+.LASF251:
+	.string	"AB_Export"
+.LASF212:
+	.string	"Print"
+.LASF314:
+	.string	"type"
+.LASF2:
+	.string	"unsigned char"
+.LASF306:
+	.string	"impl"
+.LASF328:
+	.string	"function"
+.LASF276:
+	.string	"AB_Nothing"
+.LASF199:
+	.string	"CopyDeeplyTo"
+.LASF120:
+	.string	"abFor"
+.LASF24:
+	.string	"_IO_write_ptr"
+.LASF272:
+	.string	"AB_MDefine"
+.LASF124:
+	.string	"abGenerate"
+.LASF176:
+	.string	"AbSyn_listOpsStruct"
+.LASF255:
+	.string	"AB_For"
+.LASF337:
+	.string	"context"
+.LASF97:
+	.string	"abLitFloat"
+.LASF137:
+	.string	"abMacro"
+.LASF228:
+	.string	"AB_LitFloat"
+.LASF371:
+	.string	"_SImpl"
+.LASF309:
+	.string	"poss"
+.LASF129:
+	.string	"abIf"
+.LASF311:
+	.string	"state"
+.LASF368:
+	.string	"GNU C99 12.2.0 -mtune=generic -march=x86-64 -g -O0 -std=c99 -fasynchronous-unwind-tables"
+.LASF106:
+	.string	"abCoerceTo"
+.LASF165:
+	.string	"tform"
+.LASF258:
+	.string	"AB_Free"
+.LASF235:
+	.string	"AB_Assert"
+.LASF41:
+	.string	"_codecvt"
+.LASF57:
+	.string	"Pointer"
+.LASF280:
+	.string	"AB_PretendTo"
+.LASF321:
+	.string	"expr"
+.LASF231:
+	.string	"AB_NODE_START"
+.LASF185:
+	.string	"Free"
+.LASF169:
+	.string	"stabLevel"
+.LASF9:
+	.string	"__off_t"
+.LASF327:
+	.string	"destination"
+.LASF6:
+	.string	"signed char"
+.LASF144:
+	.string	"abParen"
+.LASF150:
+	.string	"abRepeat"
+.LASF89:
+	.string	"abHdr"
+.LASF3:
+	.string	"short unsigned int"
+.LASF303:
+	.string	"defnIdx"
+.LASF170:
+	.string	"Stab"
+.LASF300:
+	.string	"abSeman"
+.LASF21:
+	.string	"_IO_read_end"
+.LASF71:
+	.string	"ostreamOps"
+.LASF177:
+	.string	"Cons"
+.LASF323:
+	.string	"iterv"
+.LASF13:
+	.string	"double"
+.LASF345:
+	.string	"abContains"
+.LASF223:
+	.string	"AB_DOC_START"
+.LASF80:
+	.string	"rest"
+.LASF263:
+	.string	"AB_If"
+.LASF66:
+	.string	"ostream"
+.LASF32:
+	.string	"_chain"
+.LASF145:
+	.string	"abPLambda"
+.LASF188:
+	.string	"FreeDeeplyTo"
+.LASF133:
+	.string	"abLabel"
+.LASF250:
+	.string	"AB_Exit"
+.LASF48:
+	.string	"FILE"
+.LASF34:
+	.string	"_flags2"
+.LASF193:
+	.string	"IsLength"
+.LASF112:
+	.string	"abDo"
+.LASF36:
+	.string	"_cur_column"
+.LASF182:
+	.string	"Equal"
+.LASF330:
+	.string	"dest"
+.LASF91:
+	.string	"abBlank"
+.LASF259:
+	.string	"AB_Generate"
+.LASF10:
+	.string	"__off64_t"
+.LASF139:
+	.string	"abMLambda"
+.LASF47:
+	.string	"_unused2"
+	.section	.debug_line_str,"MS",@progbits,1
+.LASF0:
+	.string	"test/test_absyn.c"
+.LASF1:
+	.string	"/repo/aldor/aldor/src"
+	.ident	"GCC: (Debian 12.2.0-14+deb12u1) 12.2.0"
+	.section	.note.GNU-stack,"",@progbits
